@@ -27,6 +27,12 @@ ASSUMPTIONS = ["labels (TsdFrame columns, TsGroup keys) are distinct; IntervalSe
                "a boolean pd.Series whose index is the column labels / group keys in ANOTHER order: which elements it selects is not C13's business (TsdFrame[:, key] and TsGroup[key] use the values "
                "by position, TsdFrame[key] reads it as a row mask and raises on a non-square frame - counted as observed:*); what comes back is checked for attachment",
                "IntervalSet[rows, metadata column(s)] is held to the row semantics of IntervalSet[rows, 'start'] and IntervalSet[rows, :] (NumPy positions: negative positions wrap, slices exclude their stop)",
+               "WIDENED FORMS: the model knows positions, labels and tags only, so it is compared on every widened case that reduces to those (keys of any dtype / container -> get_pos, constructor forms and "
+               "units -> mk / mk_df on the tick values, shifted origins, split with units, set operations with shifted / shared operands, TsdFrame and TsGroup selections -> f_pos / f_labels / f_mask / g_keys / g_mask / "
+               "g_map); NOT compared with the model (statement oracle only): the extra metadata column of other dtypes, operands without metadata, the empty operand, groups holding an empty member, "
+               "merge_group with reset_time_support / overlapping keys / the same object twice, groupby_apply, the arithmetic / NumPy / unit variants of column-preserving operations, histories of TsdFrame and TsGroup",
+               "forms the documented signatures do not promise (0-d array / range as IntervalSet key, float arrays / floats as TsGroup keys, a tuple of labels in TsdFrame[...]) are held to `raises a clean "
+               "Python exception or satisfies the statement`; an empty list ep[[]] is read as a list of column names and returns a DataFrame (nothing attached: not generated)",
                "the model follows /repo as repaired (c7648fb: pandas keys of IntervalSet.__getitem__ positional; c0dc0a1: merge_group sorts the concatenated metadata and copies its "
                "first operand's metadata; and the proposed repair of the tuple form ep[pandas key, :], which is compared with the SAME model functions as ep[pandas key]); the pre-repair forms are "
                "kept as *_orig definitions with their refutation theorems"]
@@ -67,11 +73,27 @@ def canon_res(r, tagcols=("tag",)):
     return "D|" + iv
 
 
-def attach_err(r, orig, mode, tagcol="tag"):
+def same_value(v, w):
+    """equality of a stored metadata value with the expected one (NaN equals NaN; booleans by truth value; numbers by value)"""
+    if isinstance(w, float) and w != w:
+        return isinstance(v, (float, np.floating)) and v != v
+    if isinstance(w, bool):
+        return isinstance(v, (bool, np.bool_)) and bool(v) == w
+    if isinstance(w, str):
+        return isinstance(v, str) and v == w
+    try:
+        return bool(v == w)
+    except Exception:
+        return False
+
+
+def attach_err(r, orig, mode, tagcol="tag", extra=None):
     """statement-level oracle: every output interval that carries a tag is the input interval with that tag
     (mode 'same': same start AND same end - the operands are canonical, no selection of their intervals has touching
     neighbours, so the constructor's 1 us trim never applies) or lies inside it (mode 'inside').
-    Tags are derivable from the data (tag = start tick // U of the interval it was given with). Returns None/'nometa'/message."""
+    Tags are derivable from the data (tag = start tick // U of the interval it was given with). Returns None/'nometa'/message.
+    extra = {column: function(tag) -> value}: further metadata columns (other dtypes, NaN, objects) whose value is a function
+    of the interval's tag; a result that carries the tag must carry them too, with the value of the same interval."""
     if tagcol not in r.metadata_columns:
         return "nometa"
     md = r.metadata
@@ -91,6 +113,11 @@ def attach_err(r, orig, mode, tagcol="tag"):
             return "interval %d: metadata columns disagree (%s vs %s)" % (i, md[lab].values[i], t)
         if int(r.get_info(tagcol)[i]) != t:
             return "get_info disagrees with metadata"
+        for col, fn in (extra or {}).items():
+            if col not in md.columns:
+                return "metadata column %s lost although %s was kept" % (col, tagcol)
+            if not same_value(md[col].values[i], fn(t)):
+                return "interval %d: column %s holds %r, the interval with tag %d was given %r" % (i, col, md[col].values[i], t, fn(t))
     return None
 
 
@@ -639,6 +666,53 @@ def run_setops(cx):
         res.count("sequences_of_three_ops")
 
 
+def frame_check(cx, nap, r, want, kk, inp, lab_of, f=lambda c: c, extra=None, by_label=False, strip_nonfinite=False):
+    """statement-level oracle of the TsdFrame cases. Column j of every test frame holds the constant c_j in every row, its metadata is
+    tag = 10 c_j, lab = 'm<c_j>' and lab_of[c_j] is its label: the data identifies the column, label and metadata must be that column's.
+    want = constants of the expected columns in order; f = what the operation does to the data.
+    extra = {metadata column: function(constant) -> value} (other dtypes); by_label: when no row is left to identify the columns by
+    (empty frame), the labels must be the requested ones and the metadata must follow the labels; strip_nonfinite: the input holds rows
+    made of NaN / +inf / -inf only, which are skipped (as rows of NaN always were)."""
+    if not isinstance(r, nap.TsdFrame):
+        cx.viol(dict(kk, part="type"), "result is not a TsdFrame", inp)
+        return
+    vals = r.values if len(r) else None
+    if vals is not None:
+        fv = np.asarray(vals, dtype=np.float64)
+        vals = vals[~((~np.isfinite(fv)).all(axis=1) if strip_nonfinite else np.isnan(fv).all(axis=1))]   # bins holding no sample
+    if vals is None or len(vals) == 0:
+        if not by_label:
+            return
+        if list(r.columns) != [lab_of[c] for c in want]:
+            cx.viol(dict(kk, part="columns"), "selected columns are not the requested ones (frame without samples: by label)", inp, list(r.columns), [lab_of[c] for c in want])
+            return
+    else:
+        if not (vals == vals[0]).all():
+            cx.viol(dict(kk, part="data"), "column data mixed", inp)
+            return
+        got = [int(v) for v in vals[0]]
+        if got != [f(c) for c in want]:
+            cx.viol(dict(kk, part="columns"), "selected columns are not the requested ones", inp, got, [f(c) for c in want])
+            return
+    if list(r.columns) != [lab_of[c] for c in want]:
+        cx.viol(dict(kk, part="labels_misattached"), "column labels do not follow the column data", inp, list(r.columns), [lab_of[c] for c in want])
+    md = r.metadata
+    if "tag" not in md.columns:
+        cx.viol(dict(kk, part="lost"), "column metadata lost", inp)
+        return
+    if list(md.index) != list(r.columns):
+        cx.viol(dict(kk, part="metadata_index"), "metadata index differs from the columns", inp, list(md.index), list(r.columns))
+    if [int(t) for t in md["tag"].values] != [10 * c for c in want] or list(md["lab"].values) != ["m%d" % c for c in want]:
+        cx.viol(dict(kk, part="misattached"), "column metadata does not follow the column data", inp, [int(t) for t in md["tag"].values], [10 * c for c in want])
+    elif any(int(r.get_info("tag")[l]) != 10 * c for l, c in zip(r.columns, want)) and len(set(r.columns)) == len(want):
+        cx.viol(dict(kk, part="misattached"), "get_info by label disagrees with the data", inp)
+    for col, fn in (extra or {}).items():
+        if col not in md.columns:
+            cx.viol(dict(kk, part="lost"), "metadata column %s lost" % col, inp)
+        elif not all(same_value(v, fn(c)) for v, c in zip(md[col].values, want)):
+            cx.viol(dict(kk, part="misattached"), "metadata column %s does not follow the column data" % col, inp, repr(list(md[col].values))[:80], repr([fn(c) for c in want])[:80])
+
+
 # ----------------------------------------------------------------------------------------------
 # TsdFrame: column labels and column metadata follow the column's data
 def run_frame(cx):
@@ -672,34 +746,7 @@ def run_frame(cx):
 
         def check(r, want, kk, inp, f=lambda c: c):
             """want = constants of the expected columns in order; f = what the operation does to the data"""
-            if not isinstance(r, nap.TsdFrame):
-                cx.viol(dict(kk, part="type"), "result is not a TsdFrame", inp)
-                return
-            if len(r) == 0:
-                return
-            vals = r.values
-            vals = vals[~np.isnan(vals).all(axis=1)]   # bins holding no sample
-            if len(vals) == 0:
-                return
-            if not (vals == vals[0]).all():
-                cx.viol(dict(kk, part="data"), "column data mixed", inp)
-                return
-            got = [int(v) for v in vals[0]]
-            if got != [f(c) for c in want]:
-                cx.viol(dict(kk, part="columns"), "selected columns are not the requested ones", inp, got, [f(c) for c in want])
-                return
-            if list(r.columns) != [lab_of[c] for c in want]:
-                cx.viol(dict(kk, part="labels_misattached"), "column labels do not follow the column data", inp, list(r.columns), [lab_of[c] for c in want])
-            md = r.metadata
-            if "tag" not in md.columns:
-                cx.viol(dict(kk, part="lost"), "column metadata lost", inp)
-                return
-            if list(md.index) != list(r.columns):
-                cx.viol(dict(kk, part="metadata_index"), "metadata index differs from the columns", inp, list(md.index), list(r.columns))
-            if [int(t) for t in md["tag"].values] != [10 * c for c in want] or list(md["lab"].values) != ["m%d" % c for c in want]:
-                cx.viol(dict(kk, part="misattached"), "column metadata does not follow the column data", inp, [int(t) for t in md["tag"].values], [10 * c for c in want])
-            elif any(int(r.get_info("tag")[l]) != 10 * c for l, c in zip(r.columns, want)) and len(set(r.columns)) == len(want):
-                cx.viol(dict(kk, part="misattached"), "get_info by label disagrees with the data", inp)
+            frame_check(cx, nap, r, want, kk, inp, lab_of, f)
 
         # positional column keys
         keys = []
@@ -877,6 +924,45 @@ def run_frame(cx):
     cx.flush()
 
 
+def member_resid(ts):
+    """every member of a test group has its spikes at (16 m + r) U (+ a multiple of 16 U): r identifies the member"""
+    return None if len(ts) == 0 else (C.to_ns(ts.t[0]) // U) % 16
+
+
+def group_check(cx, nap, g, want, kk, inp, resid=member_resid, canon=None, extra=None):
+    """statement-level oracle of the TsGroup cases. want: list of (key, residue) expected, sorted by key; residue None = do not care about
+    key identity (reset_index). The member under a key is recognised by the residue r of its spike times; its metadata row must be
+    tag = 10 r, lab = 'n<r>' (+ extra = {column: function(r) -> value}); an empty member cannot be recognised and is skipped."""
+    if not isinstance(g, nap.TsGroup):
+        cx.viol(dict(kk, part="type"), "result is not a TsGroup", inp)
+        return
+    ks = list(g.keys())
+    if ks != [k for k, _ in want]:
+        cx.viol(dict(kk, part="keys"), "keys of the result are not the requested ones", inp, ks, [k for k, _ in want])
+        return
+    md = g.metadata
+    if "tag" not in md.columns:
+        cx.viol(dict(kk, part="lost"), "member metadata lost", inp)
+        return
+    if list(md.index) != ks:
+        cx.viol(dict(kk, part="metadata_index"), "metadata index differs from the keys", inp, list(md.index), ks)
+    for i, (k, r) in enumerate(want):
+        rr = resid(g[k])
+        if rr is None:
+            continue
+        if r is not None and rr != r:
+            cx.viol(dict(kk, part="member_misattached"), "key %d holds the spikes of another member" % k, inp)
+        if int(md["tag"].values[i]) != 10 * rr or md["lab"].values[i] != "n%d" % rr:
+            cx.viol(dict(kk, part="misattached"), "key %d (member residue %d) carries tag %d" % (k, rr, int(md["tag"].values[i])), inp, canon(g) if canon else None)
+        elif int(g.get_info("tag")[k]) != 10 * rr:
+            cx.viol(dict(kk, part="misattached"), "get_info by key disagrees with the member", inp)
+        for col, fn in (extra or {}).items():
+            if col not in md.columns:
+                cx.viol(dict(kk, part="lost"), "metadata column %s lost" % col, inp)
+            elif not same_value(md[col].values[i], fn(rr)):
+                cx.viol(dict(kk, part="misattached"), "key %d (member residue %d): column %s holds %r, given %r" % (k, rr, col, md[col].values[i], fn(rr)), inp)
+
+
 # ----------------------------------------------------------------------------------------------
 # TsGroup: members and their metadata follow the key
 def run_group(cx):
@@ -908,29 +994,7 @@ def run_group(cx):
 
     def check(g, want, kk, inp):
         """want: list of (key, residue) expected, sorted by key; residue None = do not care about key identity (reset_index)"""
-        if not isinstance(g, nap.TsGroup):
-            cx.viol(dict(kk, part="type"), "result is not a TsGroup", inp)
-            return
-        ks = list(g.keys())
-        if ks != [k for k, _ in want]:
-            cx.viol(dict(kk, part="keys"), "keys of the result are not the requested ones", inp, ks, [k for k, _ in want])
-            return
-        md = g.metadata
-        if "tag" not in md.columns:
-            cx.viol(dict(kk, part="lost"), "member metadata lost", inp)
-            return
-        if list(md.index) != ks:
-            cx.viol(dict(kk, part="metadata_index"), "metadata index differs from the keys", inp, list(md.index), ks)
-        for i, (k, r) in enumerate(want):
-            rr = resid(g[k])
-            if rr is None:
-                continue
-            if r is not None and rr != r:
-                cx.viol(dict(kk, part="member_misattached"), "key %d holds the spikes of another member" % k, inp)
-            if int(md["tag"].values[i]) != 10 * rr or md["lab"].values[i] != "n%d" % rr:
-                cx.viol(dict(kk, part="misattached"), "key %d (member residue %d) carries tag %d" % (k, rr, int(md["tag"].values[i])), inp, canon(g))
-            elif int(g.get_info("tag")[k]) != 10 * rr:
-                cx.viol(dict(kk, part="misattached"), "get_info by key disagrees with the member", inp)
+        group_check(cx, nap, g, want, kk, inp, resid, canon)
 
     for kname, keys in key_sets.items():
         resids = [(3 * j + 2) % 16 for j in range(n)]
@@ -1131,6 +1195,1491 @@ def run_group(cx):
     cx.flush()
 
 
+# ==============================================================================================
+# WIDENED ARGUMENT FORMS (third-round lesson: a defect hides in the form of the input the harness never builds).
+# Axes: dtype of the metadata values / of the frame data, container and scalar forms of time arguments and keys, positional vs
+# keyword, time units, time placement (negative, straddling 0, 1e5 s), degenerate objects, every accepted class, histories.
+OFFS = {"origin": 0, "straddle0": -5 * U, "negative": -64 * U, "plus1e5s": 10 ** 14}      # all multiples of U: tag = start // U still identifies
+XKINDS = {"float_nan": lambda t: float("nan") if t % 3 == 0 else (t % 1000) + 0.5,
+          "bool": lambda t: t % 2 == 0,
+          "object_mixed": lambda t: (t % 1000) if t % 2 == 0 else "o%d" % t,
+          "float32": lambda t: (t % 1000) / 4.0,
+          "int8": lambda t: t % 100}
+TFORMS = ["ndarray", "list", "tuple", "pd.Series", "pd.Index", "TsIndex_and_t", "ms", "us", "pairs_ndarray", "pairs_list", "shared_views", "dataframe", "positional"]
+AFORMS = ["ctor_dict_list", "ctor_dict_ndarray", "ctor_dict_tuple", "ctor_dict_series", "ctor_dataframe", "set_info_dict", "set_info_kwargs",
+          "set_info_dataframe", "set_info_series", "setattr", "setitem"]
+TAGDT = ["pyint", "int64", "int32", "int16", "uint8", "uint64", "float64", "float32"]
+
+
+def wide_geo(kind, n, off):
+    if kind == "separated":
+        iv = [(4 * i * U, (4 * i + 2) * U) for i in range(n)]
+    elif kind == "1us_gaps":
+        iv = [(2 * i * U, (2 * i + 2) * U - (US if i < n - 1 else 0)) for i in range(n)]
+    else:   # "varied": durations U, 2U, 3U, U, ... separated by U
+        iv, x = [], 0
+        for i in range(n):
+            iv.append((x, x + (1 + i % 3) * U))
+            x += (2 + i % 3) * U
+    return [(s + off, e + off) for s, e in iv]
+
+
+def _container(v, how, pd):
+    if how == "list":
+        return list(v)
+    if how == "tuple":
+        return tuple(v)
+    if how == "ndarray":
+        return v if isinstance(v, np.ndarray) else (np.array(v, dtype=object) if any(isinstance(x, str) for x in v) and not all(isinstance(x, str) for x in v) else np.array(v))
+    if how == "series":
+        return pd.Series(v if isinstance(v, np.ndarray) else list(v))
+    raise ValueError(how)
+
+
+def mk_ep_form(nap, pd, ivs, tform, aform, tagdt, xkind):
+    """the IntervalSet `ivs` with the metadata columns tag (= start // U, dtype tagdt), lab, grp, xtr (kind xkind), built through one
+    of the constructor's time-argument forms and one of the ways of attaching metadata. Returns (object, forms actually used)"""
+    n = len(ivs)
+    st, en = [s for s, _ in ivs], [e for _, e in ivs]
+    tags = [s // U for s in st]
+    tagv = list(tags)
+    if tagdt != "pyint":
+        with np.errstate(all="ignore"):
+            a = np.array(tags, dtype=np.int64).astype(tagdt)
+        if [int(x) for x in a] == tags:
+            tagv = a
+        else:
+            tagdt = "pyint"
+    fn = XKINDS[xkind]
+    xv = [fn(t) for t in tags]
+    if xkind in ("float32", "int8", "bool"):
+        xv = np.array(xv, dtype={"float32": np.float32, "int8": np.int8, "bool": bool}[xkind])
+    cols = {"tag": tagv, "lab": ["s%d" % t for t in tags], "grp": [i % 2 for i in range(n)], "xtr": xv}
+    S, E, units = G.arr(st), G.arr(en), "s"
+    if tform == "ms":
+        S, E, units = np.array(st, dtype=np.float64) / 1e6, np.array(en, dtype=np.float64) / 1e6, "ms"
+    elif tform == "us":
+        S, E, units = np.array(st, dtype=np.float64) / 1e3, np.array(en, dtype=np.float64) / 1e3, "us"
+    if tform == "dataframe":
+        df = pd.DataFrame({"start": S, "end": E})
+        for k, v in cols.items():
+            df[k] = v if isinstance(v, np.ndarray) else list(v)
+        return nap.IntervalSet(df), ("dataframe", "dataframe_columns", tagdt)
+    how = {"ctor_dict_list": "list", "ctor_dict_ndarray": "ndarray", "ctor_dict_tuple": "tuple", "ctor_dict_series": "series", "set_info_dict": "list",
+           "set_info_kwargs": "ndarray", "set_info_series": "series", "setattr": "list", "setitem": "tuple"}.get(aform)
+    if aform in ("ctor_dataframe", "set_info_dataframe"):
+        md = pd.DataFrame({k: (v if isinstance(v, np.ndarray) else list(v)) for k, v in cols.items()})
+    else:
+        md = {k: _container(v, how, pd) for k, v in cols.items()}
+    cmd = md if aform.startswith("ctor") else None
+    keep = None
+    if tform in ("pairs_ndarray", "pairs_list"):
+        pairs = np.column_stack([S, E]) if tform == "pairs_ndarray" else [(float(a), float(b)) for a, b in zip(S, E)]
+        ep = nap.IntervalSet(pairs, metadata=cmd)
+    elif tform == "positional":
+        ep = nap.IntervalSet(S, E, "s", cmd)
+    else:
+        if tform == "list":
+            a0, a1 = [float(x) for x in S], [float(x) for x in E]
+        elif tform == "tuple":
+            a0, a1 = tuple(float(x) for x in S), tuple(float(x) for x in E)
+        elif tform == "pd.Series":
+            a0, a1 = pd.Series(S), pd.Series(E, index=list(range(7, 7 + n)))      # the Series' own index plays no role
+        elif tform == "pd.Index":
+            a0, a1 = pd.Index(S), pd.Index(E)
+        elif tform == "TsIndex_and_t":
+            a0, a1 = nap.Ts(S).index, nap.Ts(E).t
+        elif tform == "shared_views":
+            keep = nap.IntervalSet(S, E)          # a live object whose array the new one is built from (strided views)
+            a0, a1 = keep.start, keep.end
+        else:
+            a0, a1 = S, E
+        ep = nap.IntervalSet(start=a0, end=a1, time_units=units, metadata=cmd)
+    if cmd is None:
+        if aform == "set_info_dict":
+            ep.set_info(md)
+        elif aform == "set_info_dataframe":
+            ep.set_info(md)
+        elif aform in ("set_info_kwargs", "set_info_series"):
+            ep.set_info(**md)
+        elif aform == "setattr":
+            for k, v in md.items():
+                setattr(ep, k, v)
+        else:
+            for k, v in md.items():
+                ep[k] = v
+    return ep, (tform, aform, tagdt)
+
+
+def judge_sel(cx, r, ivs, ps, kk, inp, extra, nap):
+    """the clauses of run_iset_index for one selection result: kept metadata is attached to the same interval; an order-preserving
+    selection keeps it; the intervals are the requested ones"""
+    if not isinstance(r, nap.IntervalSet):
+        cx.viol(dict(kk, part="type"), "result is not an IntervalSet", inp, type(r).__name__)
+        return
+    impl = canon_res(r)
+    err = attach_err(r, ivs, "same", extra=extra)
+    if err == "nometa":
+        if ps and strictly_inc(ps):
+            cx.viol(dict(kk, part="lost"), "order-preserving selection lost its metadata", inp, impl)
+    elif err:
+        cx.viol(dict(kk, part="misattached"), err, inp, impl)
+    if ps is not None and strictly_inc(ps) and [t[0] for t in ticks(r)] != [ivs[p][0] for p in ps]:
+        cx.viol(dict(kk, part="intervals"), "selected intervals are not the requested ones", inp, impl)
+
+
+def wide_pos_keys(n, pd, rng, count):
+    """(form, key, positions, description, documented) for NumPy integer dtypes / NumPy scalars / lists of NumPy scalars / pandas objects
+    of small dtypes / non-contiguous arrays; documented=False: a form the signature does not promise (clean exception or the statement)"""
+    out = []
+    for _ in range(count):
+        m = rng.randint(1, min(n, 4))
+        kind = rng.choice(["increasing", "any", "negative"])
+        l = sorted(rng.sample(range(n), m)) if kind != "any" else rng.sample(range(n), m)
+        if kind == "negative":
+            l = [p - n for p in l]
+        ps = [p % n for p in l]
+        dts = ["int64", "int32", "int16", "int8"] + (["uint8", "uint16", "uint32", "uint64"] if min(l) >= 0 else [])
+        dt = rng.choice(dts)
+        f = rng.choice(["ndarray", "list_np", "pd.Index", "pd.Series", "noncontiguous", "scalar"])
+        if f == "ndarray":
+            out.append(("ndarray_" + dt, np.array(l, dtype=dt), ps, l, True))
+        elif f == "list_np":
+            out.append(("list_of_np." + dt, [np.dtype(dt).type(x) for x in l], ps, l, True))
+        elif f == "pd.Index":
+            out.append(("pd.Index_" + dt, pd.Index(np.array(l, dtype=dt)), ps, l, True))
+        elif f == "pd.Series":
+            out.append(("pd.Series_" + dt, pd.Series(np.array(l, dtype=dt), index=[3 * i + 1 for i in range(m)]), ps, l, True))
+        elif f == "noncontiguous":
+            big = np.zeros(2 * m, dtype=dt)
+            big[::2] = l
+            out.append(("ndarray_strided_" + dt, big[::2], ps, l, True))
+        else:
+            out.append(("scalar_np." + dt, np.dtype(dt).type(l[0]), [ps[0]], l[0], True))
+    k = rng.randrange(n)
+    out.append(("0d_array", np.array(k), [k], k, False))
+    a, b = sorted((rng.randrange(n + 1), rng.randrange(n + 1)))
+    out.append(("range", range(a, b), list(range(a, b)), [a, b], False))
+    out.append(("ndarray_empty_int", np.array([], dtype=np.int64), [], [], True))
+    return out
+
+
+def probe_get_info(cx, obj, cls, idx, tags, vdesc, rng, pd):
+    """the reading side: get_info with every documented key form (index value, list / ndarray / Series of index values, slice, (index, column),
+    column name(s)) returns the value given for THAT element. idx = the metadata index (positions / labels / keys), tags = the tag given to each"""
+    res = cx.res
+    n = len(idx)
+    j, k = rng.randrange(n), rng.randrange(n)
+    a, b = sorted((rng.randrange(n + 1), rng.randrange(n + 1)))
+    forms = [("index_value", lambda: obj.get_info(idx[j])["tag"], tags[j]), ("list_of_index_values", lambda: list(obj.get_info([idx[j], idx[k]])["tag"]), [tags[j], tags[k]]),
+             ("ndarray_of_index_values", lambda: list(obj.get_info(np.array([idx[k], idx[j]]))["tag"]), [tags[k], tags[j]]),
+             ("tuple_index_column", lambda: obj.get_info((idx[j], "tag")), tags[j]), ("tuple_list_columns", lambda: list(obj.get_info(([idx[j], idx[k]], ["tag"]))["tag"]), [tags[j], tags[k]]),
+             ("slice", lambda: list(obj.get_info(slice(a, b))["tag"]), tags[a:b]), ("column", lambda: list(obj.get_info("tag")), list(tags)),
+             ("column_list", lambda: list(obj.get_info(["lab", "tag"])["tag"]), list(tags)), ("item", lambda: list(obj["tag"]), list(tags)), ("attribute", lambda: list(obj.tag), list(tags)),
+             ("pd.Index_of_index_values", lambda: list(obj.get_info(pd.Index([idx[j], idx[k]]))["tag"]), [tags[j], tags[k]])]
+    if isinstance(idx[0], str):
+        forms = [f for f in forms if f[0] not in ("ndarray_of_index_values",)] + [("list_of_labels", lambda: list(obj.get_info([idx[j], idx[k]])["tag"]), [tags[j], tags[k]])]
+    if isinstance(idx[0], float):
+        forms = [f for f in forms if f[0] != "slice"] + [("slice", lambda: list(obj.get_info(slice(a, b))["tag"]), tags[a:b])]
+    for fname, fn, want in forms:
+        res.count("wide_get_info_%s_%s" % (cls, fname))
+        res.case(("wide_get_info", cls, fname, str(vdesc.get("labels", vdesc.get("keys", vdesc.get("intervals", ""))))[:60], j, k, a, b), nontrivial=True)
+        kk = {"op": cls + ".get_info", "form": fname, "widened": True}
+        try:
+            got = fn()
+            got = [int(x) for x in got] if isinstance(want, list) else int(got)
+        except Exception as ex:
+            cx.viol(dict(kk, part="exception"), "raised %s: %s" % (type(ex).__name__, str(ex)[:80]), dict(vdesc, index=[idx[j], idx[k]], slice=[a, b]))
+            continue
+        if got != want:
+            cx.viol(dict(kk, part="misattached"), "get_info returned another element's value", dict(vdesc, index=[idx[j], idx[k]], slice=[a, b]), got, want)
+
+
+def run_iset_forms(cx):
+    nap, pd = _nap()
+    res = cx.res
+    rng = random.Random(cx.seed * 13 + 6)
+    nvar = 10 if cx.quick else 60
+    variants = [("origin", 1, "separated"), ("negative", 1, "separated"), ("straddle0", 2, "varied"), ("plus1e5s", 12, "varied")]
+    while len(variants) < nvar:
+        variants.append((rng.choice(list(OFFS)), rng.choice([2, 3, 4, 4, 5, 6]), rng.choice(["separated", "1us_gaps", "varied"])))
+    tforms, aforms, tagdts, xkinds = list(TFORMS), list(AFORMS), list(TAGDT), list(XKINDS)
+    for f in (tforms, aforms, tagdts, xkinds):
+        rng.shuffle(f)
+    for vi, (oname, n, gname) in enumerate(variants):
+        off = OFFS[oname]
+        ivs = wide_geo(gname, n, off)
+        tform, aform, tagdt, xkind = tforms[vi % len(tforms)], aforms[(vi + vi // len(aforms)) % len(aforms)], tagdts[vi % len(tagdts)], xkinds[vi % len(xkinds)]
+        extra = {"xtr": XKINDS[xkind]}
+        vdesc = {"offset": oname, "n": n, "geometry": gname, "time_form": tform, "attach_form": aform, "tag_dtype": tagdt, "xtr": xkind}
+        kk0 = {"op": "IntervalSet.__init__", "time_form": tform, "attach_form": aform, "widened": True}
+        try:
+            ep, used = mk_ep_form(nap, pd, ivs, tform, aform, tagdt, xkind)
+        except Exception as ex:
+            cx.viol(dict(kk0, part="exception"), "building canonical intervals with metadata raised %s: %s" % (type(ex).__name__, str(ex)[:80]), dict(vdesc, intervals=ivs))
+            continue
+        res.count("wide_iset_time_form_" + used[0]); res.count("wide_iset_attach_form_" + used[1]); res.count("wide_iset_tag_dtype_" + used[2])
+        res.count("wide_iset_xtr_" + xkind); res.count("wide_iset_offset_" + oname); res.count("wide_iset_n_%d" % n)
+        res.case(("wide_iset", vi, oname, n, gname, tform, aform, tagdt, xkind), nontrivial=True)
+        base = dict(vdesc, intervals=ivs)
+        err = attach_err(ep, ivs, "same", extra=extra)
+        if err or len(ep) != n:
+            cx.viol(dict(kk0, part="lost" if err == "nometa" else "misattached"), "metadata given with canonical intervals is not attached to them: %s" % err, base, canon_res(ep))
+            continue
+        cx.corr("get_pos\t%s\t%s" % (obj_line(ivs), C.fmt_ints(range(n))), canon_res(ep), dict(base, op="wide_iset_build"))
+        tag_of = [s // U for s, _ in ivs]
+        # ---- keys of NumPy dtypes, NumPy scalars, pandas objects of small dtypes, strided arrays; bare and in the tuple form [key, :]
+        for form, key, ps, desc, documented in wide_pos_keys(n, pd, rng, 12 if cx.quick else 40):
+            for tup in (False, True):
+                full = form + (",:" if tup else "")
+                inp = dict(base, form=full, key=desc)
+                res.count("wide_iset_key_" + ("undocumented_" if not documented else "") + form.split("_")[0] + (",:" if tup else ""))
+                res.case(("wide_iset", vi, full, str(desc)), nontrivial=bool(ps) and (len(ps) < n or not strictly_inc(ps)))
+                kk = {"op": "IntervalSet.__getitem__", "form": full, "widened": True}
+                try:
+                    r = ep[key, :] if tup else ep[key]
+                except Exception as ex:
+                    if documented:
+                        cx.viol(dict(kk, part="exception"), "valid key raised %s: %s" % (type(ex).__name__, str(ex)[:60]), inp)
+                    else:
+                        res.count("observed:iset_%s_raises_%s" % (form, type(ex).__name__))
+                    continue
+                judge_sel(cx, r, ivs, ps, kk, inp, extra, nap)
+                if documented and isinstance(r, nap.IntervalSet):
+                    cx.corr("get_pos\t%s\t%s" % (obj_line(ivs), C.fmt_ints(ps)), canon_res(r), dict(inp, op="wide_iset_get_pos"))
+            if form.startswith("ndarray_empty") or (cx.quick and rng.random() < 0.5):
+                continue
+            # the same row key with metadata column(s)
+            for cform, colsk in (("str", "tag"), ("metadata_columns", ["xtr", "tag"]), ("all_columns", ["start", "end", "tag", "lab", "grp", "xtr"])):
+                full = "%s,%s" % (form, cform)
+                inp = dict(base, form=full, key=desc, columns=colsk)
+                kk = {"op": "IntervalSet.__getitem__", "form": full, "columns": cform, "widened": True}
+                res.count("wide_iset_key_rows,columns")
+                res.case(("wide_iset", vi, full, str(desc)), nontrivial=True)
+                try:
+                    r = ep[key, colsk]
+                except Exception as ex:
+                    if documented:
+                        cx.viol(dict(kk, part="exception"), "valid key raised %s: %s" % (type(ex).__name__, str(ex)[:60]), inp)
+                    continue
+                if cform == "all_columns":
+                    judge_sel(cx, r, ivs, ps, kk, inp, extra, nap)
+                    continue
+                try:
+                    if cform == "str":
+                        got = [int(x) for x in np.atleast_1d(np.asarray(r))]
+                        want = [tag_of[p] for p in ps]
+                    else:
+                        arr = np.asarray(r, dtype=object)
+                        arr = arr.reshape(1, -1) if arr.ndim == 1 else arr
+                        got = [int(b) for a, b in arr]
+                        want = [tag_of[p] for p in ps]
+                        if not all(same_value(a, XKINDS[xkind](int(b))) for a, b in arr):
+                            cx.viol(dict(kk, part="misattached"), "the two metadata columns returned for a row belong to different intervals", inp, repr(arr.tolist())[:120])
+                except Exception as ex:
+                    cx.viol(dict(kk, part="type"), "result cannot be read as metadata values: %s" % type(ex).__name__, inp, repr(r)[:80])
+                    continue
+                if got != want:
+                    cx.viol(dict(kk, part="misattached"), "metadata returned for the row key is not that of the intervals the same row key selects", inp, got, want)
+        # ---- boolean keys computed from the metadata itself (the natural use), as Series, ndarray, list of np.bool_
+        conds = []
+        for thr in rng.sample(tag_of, min(3, n)):
+            sel = [t > thr for t in tag_of]
+            conds += [("attr_gt", lambda thr=thr: ep.tag > thr, sel), ("getitem_gt_values", lambda thr=thr: (ep["tag"] > thr).values, sel),
+                      ("get_info_list_np_bool", lambda thr=thr: list(ep.get_info("tag").values > thr), sel)]
+        conds += [("grp_eq", lambda: ep.grp == 1, [i % 2 == 1 for i in range(n)]), ("metadata_frame_cond", lambda: ep.metadata["grp"] == 0, [i % 2 == 0 for i in range(n)]),
+                  ("lab_isin", lambda: ep.lab.isin(["s%d" % t for t in tag_of[::2]]), [i % 2 == 0 for i in range(n)])]
+        for cname, mk, sel in conds:
+            ps = [i for i, b in enumerate(sel) if b]
+            for tup in (False, True):
+                full = "mask_from_metadata_" + cname + (",:" if tup else "")
+                inp = dict(base, form=full, mask=[int(b) for b in sel])
+                kk = {"op": "IntervalSet.__getitem__", "form": full, "widened": True}
+                res.count("wide_iset_key_mask_from_metadata")
+                res.case(("wide_iset", vi, full, tuple(sel)), nontrivial=0 < len(ps) < n)
+                try:
+                    key = mk()
+                    r = ep[key, :] if tup else ep[key]
+                except Exception as ex:
+                    cx.viol(dict(kk, part="exception"), "valid key raised %s: %s" % (type(ex).__name__, str(ex)[:60]), inp)
+                    continue
+                judge_sel(cx, r, ivs, ps, kk, inp, extra, nap)
+                if any(sel) and "nometa" == attach_err(r, ivs, "same"):
+                    cx.viol(dict(kk, part="lost"), "mask selection lost its metadata", inp, canon_res(r))
+                cx.corr("get_pos\t%s\t%s" % (obj_line(ivs), C.fmt_ints(ps)), canon_res(r), dict(inp, op="wide_iset_mask"))
+        probe_get_info(cx, ep, "IntervalSet", list(range(n)), tag_of, base, rng, pd)
+        wide_iset_ops(cx, nap, pd, ep, ivs, extra, base, vi, rng)
+    cx.flush()
+
+
+def wide_iset_ops(cx, nap, pd, ep, ivs, extra, base, vi, rng):
+    """the IntervalSet operations of the statement on one widened object: parameters positional and by keyword, the three time units,
+    scalar forms, the other classes an operand may have (no metadata, empty, the object itself, an object sharing its memory), histories"""
+    import pathlib
+    res = cx.res
+    n = len(ivs)
+    tag_of = [s // U for s, _ in ivs]
+    lo, hi = ivs[0][0], ivs[-1][1]
+
+    def sel(r, ps, op, form, inp=None, **kw):
+        kk = dict({"op": op, "form": form, "widened": True}, **kw)
+        res.count("wide_%s_%s" % (op.replace("IntervalSet.", "iset_"), form))
+        res.case(("wide_iset", vi, op, form, str(ps)), nontrivial=True)
+        judge_sel(cx, r, ivs, ps, kk, dict(base, form=form, **(inp or {})), extra, nap)
+
+    def attempt(op, form, fn, inp=None):
+        try:
+            return fn()
+        except Exception as ex:
+            cx.viol({"op": op, "form": form, "part": "exception", "widened": True}, "raised %s: %s" % (type(ex).__name__, str(ex)[:80]), dict(base, **dict(inp or {}, form=form)))
+            return None
+
+    # ---- groupby: `by` as str / list / two columns, get_group positional / keyword, groupby_apply with and without input_key
+    gforms = [("by_str_positional", lambda v: ep.groupby("grp", v)), ("by_list_keyword", lambda v: ep.groupby(by=["grp"], get_group=v)),
+              ("by_str_keyword", lambda v: ep.groupby(by="grp", get_group=v)), ("groupby_apply", lambda v: ep.groupby_apply("grp", lambda x: x)[v]),
+              ("groupby_apply_input_key", lambda v: ep.groupby_apply("grp", (lambda x, y=None: x), input_key="x", y=1)[v]),
+              ("groups_then_index", lambda v: ep[ep.groupby("grp")[v]]), ("groups_as_list_then_tuple_index", lambda v: ep[list(ep.groupby(["grp"])[v]), :])]
+    for v in sorted({i % 2 for i in range(n)}):
+        want = [i for i in range(n) if i % 2 == v]
+        for gname, fn in (rng.sample(gforms, 3) if cx.quick else gforms):
+            r = attempt("IntervalSet.groupby", gname, lambda: fn(v), {"group": v})
+            if r is not None:
+                sel(r, want, "IntervalSet.groupby", gname, {"group": v})
+                if not isinstance(r, nap.IntervalSet) or "grp" not in r.metadata_columns or [int(x) for x in r.metadata["grp"]] != [v] * len(want):
+                    cx.viol({"op": "IntervalSet.groupby", "form": gname, "part": "get_group", "widened": True}, "the group's members do not all carry the group's value", dict(base, group=v))
+    i = rng.randrange(n)
+    r = attempt("IntervalSet.groupby", "by_two_columns", lambda: ep.groupby(["grp", "lab"], (i % 2, "s%d" % tag_of[i])), {"group": i})
+    if r is not None:
+        sel(r, [i], "IntervalSet.groupby", "by_two_columns", {"group": i})
+    # ---- drop_short / drop_long: the threshold in s / ms / us, positional and keyword, Python int / float / NumPy scalars
+    for thr_us in rng.sample([1000, 2500, 3905, 3906, 4500, 6000], 2 if cx.quick else 4):
+        thr = thr_us * 1000
+        calls = [("s_positional_float", lambda f: f(thr_us / 1e6)), ("ms_positional", lambda f: f(thr_us / 1e3, "ms")), ("us_positional_int", lambda f: f(thr_us, "us")),
+                 ("us_keyword_np.int64", lambda f: f(threshold=np.int64(thr_us), time_units="us")), ("ms_keyword_np.float32", lambda f: f(np.float32(thr_us / 1e3), time_units="ms")),
+                 ("s_keyword_np.float64", lambda f: f(threshold=np.float64(thr_us / 1e6), time_units="s"))]
+        for cname, callf in rng.sample(calls, 2 if cx.quick else 6):
+            for nm in ("drop_short_intervals", "drop_long_intervals"):
+                want = [j for j, (s, e) in enumerate(ivs) if ((e - s) > thr if nm[5] == "s" else (e - s) < thr)]
+                r = attempt("IntervalSet." + nm, cname, lambda: callf(getattr(ep, nm)), {"threshold_us": thr_us})
+                if r is not None:
+                    sel(r, want, "IntervalSet." + nm, cname, {"threshold_us": thr_us})
+                    if want and isinstance(r, nap.IntervalSet) and attach_err(r, ivs, "same") == "nometa":
+                        cx.viol({"op": "IntervalSet." + nm, "form": cname, "part": "lost", "widened": True}, "metadata lost", dict(base, threshold_us=thr_us))
+    # ---- split: the size in s / ms / us, positional and keyword; merge_close_intervals / time_span / union drop
+    for b in (U, 2 * U):
+        calls = [("s_positional", lambda: ep.split(b / 1e9)), ("ms_positional", lambda: ep.split(b / 1e6, "ms")), ("us_keyword", lambda: ep.split(interval_size=b / 1e3, time_units="us")),
+                 ("s_keyword_np.float64", lambda: ep.split(interval_size=np.float64(b / 1e9), time_units="s"))]
+        for cname, fn in rng.sample(calls, 2):
+            r = attempt("split", cname, fn, {"size": b})
+            res.count("wide_iset_split_" + cname)
+            res.case(("wide_iset", vi, "split", cname, b), nontrivial=any(e - s > b for s, e in ivs))
+            if r is None:
+                continue
+            impl = canon_res(r)
+            cx.corr("split\t%s\t%d" % (obj_line(ivs), b), impl, dict(base, op="wide_split", form=cname, size=b))
+            if len(r):
+                err = attach_err(r, ivs, "inside", extra=extra)
+                if err:
+                    cx.viol({"op": "split", "form": cname, "part": "lost" if err == "nometa" else "misattached", "widened": True}, err, dict(base, size=b), impl)
+            exp_n = sum((e - s) // b for s, e in ivs if e - s > b)
+            if len(r) != exp_n:
+                cx.viol({"op": "split", "form": cname, "part": "pieces", "widened": True}, "split returned %d pieces, expected %d" % (len(r), exp_n), dict(base, size=b), impl)
+    empty = nap.IntervalSet([], [])
+    for cname, fn, line in (("merge_close_s", lambda: ep.merge_close_intervals(U / 1e9), "merge_close\t%s\t%d" % (obj_line(ivs), U)),
+                            ("merge_close_ms_positional", lambda: ep.merge_close_intervals(U / 1e6, "ms"), "merge_close\t%s\t%d" % (obj_line(ivs), U)),
+                            ("merge_close_us_keyword", lambda: ep.merge_close_intervals(threshold=0, time_units="us"), "merge_close\t%s\t0" % obj_line(ivs)),
+                            ("time_span", lambda: ep.time_span(), "time_span\t%s" % obj_line(ivs)),
+                            ("union_with_itself", lambda: ep.union(ep), "union\t%s\t%s" % (obj_line(ivs), obj_line(ivs))),
+                            ("union_with_empty", lambda: ep.union(empty), None), ("empty_union", lambda: empty.union(ep), None)):
+        r = attempt("drops", cname, fn)
+        res.count("wide_iset_dropping_op_" + cname)
+        res.case(("wide_iset", vi, "drops", cname), nontrivial=True)
+        if r is None:
+            continue
+        if line is not None:
+            cx.corr(line, canon_res(r), dict(base, op="wide_" + cname))
+        if r.metadata_columns:   # the statement: these operations drop metadata entirely (also when the other operand is empty or the object itself)
+            cx.viol({"op": "union" if "union" in cname else "merge_close_intervals" if "merge_close" in cname else cname, "form": cname, "widened": True}, "returned metadata", base, canon_res(r))
+    # ---- save / load (str with and without extension, pathlib.Path), then index the loaded object
+    with tempfile.TemporaryDirectory() as d:
+        for pname, path in (("str_npz", os.path.join(d, "a.npz")), ("str_no_extension", os.path.join(d, "b")), ("pathlib", pathlib.Path(d) / "c.npz")):
+            if rng.random() < 0.5 and pname != "str_npz":
+                continue
+            r = attempt("IntervalSet.save_load", pname, lambda: (ep.save(path), nap.load_file(str(path) if str(path).endswith(".npz") else str(path) + ".npz"))[1])
+            if r is not None:
+                sel(r, list(range(n)), "IntervalSet.save_load", pname)
+                if isinstance(r, nap.IntervalSet) and (len(r) != n or attach_err(r, ivs, "same") == "nometa"):
+                    cx.viol({"op": "IntervalSet.save_load", "form": pname, "part": "lost", "widened": True}, "save / load lost intervals or metadata", base, canon_res(r))
+                elif isinstance(r, nap.IntervalSet) and n > 1:
+                    sel(r[np.array([n - 1], dtype=np.int32)], [n - 1], "IntervalSet.save_load", pname + "_then_index")
+    # ---- loc, lists of column names, DataFrame round trip, IntervalSet(IntervalSet)
+    l = sorted(rng.sample(range(n), rng.randint(1, n)))
+    r = attempt("IntervalSet.loc", "list", lambda: ep.loc[l], {"key": l})
+    if r is not None:
+        sel(r, l, "IntervalSet.loc", "list", {"key": l})
+    p = rng.randrange(n)
+    v = attempt("IntervalSet.loc", "scalar", lambda: (ep.loc[p, "tag"], ep.loc[p, "start"], ep.loc[p, "xtr"], list(ep.loc["tag"]), ep.loc[p]), {"key": p})
+    res.case(("wide_iset", vi, "loc_scalar", p), nontrivial=True)
+    if v is not None and not (int(v[0]) == tag_of[p] and C.to_ns(v[1]) == ivs[p][0] and same_value(v[2], extra["xtr"](tag_of[p])) and [int(x) for x in v[3]] == tag_of
+                              and [C.to_ns(x) for x in v[4]] == list(ivs[p])):
+        cx.viol({"op": "IntervalSet.loc", "form": "scalar", "widened": True}, "loc[i, column] / loc[column] / loc[i] is not interval i's value", dict(base, key=p), repr(v)[:120])
+    cols = ["start", "end", "tag", "lab", "grp", "xtr"]
+    rng.shuffle(cols)
+    for cname, fn in (("column_list_shuffled", lambda: ep[cols]), ("dataframe_round_trip", lambda: nap.IntervalSet(ep.as_dataframe())),
+                      ("dataframe_round_trip_reversed_rows", lambda: nap.IntervalSet(ep.as_dataframe().iloc[::-1])),
+                      ("from_IntervalSet", lambda: nap.IntervalSet(ep)), ("metadata_property_reattached", lambda: nap.IntervalSet(ep.start, ep.end, metadata=ep.metadata))):
+        if cx.quick and rng.random() < 0.4:
+            continue
+        r = attempt("IntervalSet.rebuild", cname, fn, {"columns": cols})
+        if r is not None:
+            # IntervalSet(IntervalSet) is a construction the statement does not list among the preserving operations: it may drop, never misattach
+            sel(r, None if cname == "from_IntervalSet" else list(range(n)), "IntervalSet.rebuild", cname, {"columns": cols})
+            if isinstance(r, nap.IntervalSet) and ticks(r) != list(ivs):
+                cx.viol({"op": "IntervalSet.rebuild", "form": cname, "part": "intervals", "widened": True}, "the rebuilt object does not hold the same intervals", base, canon_res(r))
+            if cname != "from_IntervalSet" and isinstance(r, nap.IntervalSet) and attach_err(r, ivs, "same") == "nometa":
+                cx.viol({"op": "IntervalSet.rebuild", "form": cname, "part": "lost", "widened": True}, "metadata lost", base)
+    # ---- set operations with the object itself, a part of it sharing memory, an operand without metadata, an empty operand
+    cover = nap.IntervalSet(G.arr([lo - U]), G.arr([hi + U]))
+    far = nap.IntervalSet(G.arr([hi + 3 * U]), G.arr([hi + 5 * U]), metadata={"tagb": [5]})
+    odd = [j for j in range(n) if j % 2 == 1]
+    even = [j for j in range(n) if j % 2 == 0]
+    sub = ep[1::2] if odd else None
+    subb = nap.IntervalSet(sub.start, sub.end, metadata={"tagb": np.array([tag_of[j] for j in odd]), "labb": ["s%d" % tag_of[j] for j in odd]}) if odd else None
+    allp = list(range(n))
+    kpart = n // 2
+    partial = nap.IntervalSet(G.arr([ivs[kpart][0]]), G.arr([hi + U]))      # without metadata, covering the intervals kpart.. exactly
+    sops = [("intersect_partial_cover_without_metadata", lambda: ep.intersect(partial), allp[kpart:], True), ("partial_cover_without_metadata_intersect", lambda: partial.intersect(ep), allp[kpart:], True),
+            ("set_diff_partial_cover", lambda: ep.set_diff(partial), allp[:kpart], True),
+            ("intersect_cover_without_metadata", lambda: ep.intersect(cover), allp, True), ("cover_without_metadata_intersect", lambda: cover.intersect(ep), allp, True),
+            ("intersect_keyword", lambda: ep.intersect(a=cover), allp, True), ("set_diff_far", lambda: ep.set_diff(far), allp, True), ("set_diff_keyword_empty", lambda: ep.set_diff(a=empty), allp, True),
+            ("intersect_empty", lambda: ep.intersect(empty), [], True), ("empty_intersect", lambda: empty.intersect(ep), [], True), ("empty_set_diff", lambda: empty.set_diff(ep), [], True),
+            ("set_diff_itself", lambda: ep.set_diff(ep), [], True), ("set_diff_cover", lambda: ep.set_diff(cover), [], True),
+            ("intersect_itself", lambda: ep.intersect(ep), allp, False)]       # same column names on both sides: a drop is allowed, a wrong value is not
+    if odd:
+        sops += [("intersect_part_sharing_memory", lambda: ep.intersect(subb), odd, True), ("part_sharing_memory_intersect", lambda: subb.intersect(ep), odd, True),
+                 ("set_diff_part_sharing_memory", lambda: ep.set_diff(subb), even, True), ("set_diff_own_slice", lambda: ep.set_diff(sub), even, True)]
+    for cname, fn, ps, must_keep in (rng.sample(sops, 8) if cx.quick else sops):
+        r = attempt("setop", cname, fn)
+        res.count("wide_iset_setop_" + cname)
+        res.case(("wide_iset", vi, "setop", cname), nontrivial=bool(ps))
+        if r is None:
+            continue
+        if not isinstance(r, nap.IntervalSet):
+            cx.viol({"op": "setop", "form": cname, "part": "type", "widened": True}, "result is not an IntervalSet", base)
+            continue
+        impl = canon_res(r)
+        if [t for t in ticks(r)] != [ivs[j] for j in ps]:
+            cx.viol({"op": "setop", "form": cname, "part": "intervals", "widened": True}, "the pieces are not the expected intervals", base, impl)
+            continue
+        if not ps:
+            continue
+        err = attach_err(r, ivs, "same", extra=extra if must_keep else None)
+        if err and (must_keep or err != "nometa"):
+            cx.viol({"op": "setop", "form": cname, "part": "lost" if err == "nometa" else "misattached", "widened": True}, err, base, impl)
+        if "part_sharing_memory" in cname and "intersect" in cname:
+            err = attach_err(r, [ivs[j] for j in odd], "same", "tagb")
+            if err:
+                cx.viol({"op": "setop", "form": cname, "side": "tagb", "part": "lost" if err == "nometa" else "misattached", "widened": True}, err, base, impl)
+            cx.corr("inter\t%s\t%s" % ((obj_line(ivs), obj_line([ivs[j] for j in odd])) if cname.startswith("intersect") else (obj_line([ivs[j] for j in odd]), obj_line(ivs))),
+                    canon_res(r, ("tag", "tagb") if cname.startswith("intersect") else ("tagb", "tag")), dict(base, op="wide_" + cname))
+        elif cname in ("set_diff_far", "set_diff_part_sharing_memory", "set_diff_own_slice"):
+            cx.corr("diff\t%s\t%s" % (obj_line(ivs), C.fmt_iset(ticks(far) if cname == "set_diff_far" else [ivs[j] for j in odd])), impl, dict(base, op="wide_" + cname))
+    # the operands are still intact (the same live object was used many times)
+    err = attach_err(ep, ivs, "same", extra=extra)
+    if err or len(ep) != n:
+        cx.viol({"op": "IntervalSet.operand_corrupted", "widened": True}, "after the operations above the object's own metadata is no longer attached: %s" % err, base, canon_res(ep))
+    # ---- histories: three steps that each keep the surviving intervals unchanged, then the property's clauses on the end result
+    steps = ["mask_from_metadata", "slice", "save_load", "columns", "dataframe_round_trip", "intersect_cover", "set_diff_far", "get_group", "drop_short_0us", "ndarray_uint8", "pd.Index_int32",
+             "loc_list", "set_info_again"]
+    for _h in range(4 if cx.quick else 20):
+        cur, ps, hist = ep, list(range(n)), []
+        for _k in range(3):
+            st = rng.choice(steps)
+            m = len(ps)
+            try:
+                if st == "mask_from_metadata":
+                    thr = rng.choice([tag_of[j] for j in ps])
+                    cur, ps = cur[cur.tag >= thr], [j for j in ps if tag_of[j] >= thr]
+                elif st == "slice":
+                    a, b = rng.choice([None, 0, 1, -2]), rng.choice([None, 1, 2, -1, 5])
+                    cur, ps = cur[a:b], ps[a:b]
+                elif st == "save_load":
+                    with tempfile.TemporaryDirectory() as d:
+                        cur.save(os.path.join(d, "h.npz"))
+                        cur = nap.load_file(os.path.join(d, "h.npz"))
+                elif st == "columns":
+                    cur = cur[["xtr", "end", "lab", "start", "grp", "tag"]]
+                elif st == "dataframe_round_trip":
+                    cur = nap.IntervalSet(cur.as_dataframe())
+                elif st == "intersect_cover":
+                    cur = cur.intersect(cover)
+                elif st == "set_diff_far":
+                    cur = cur.set_diff(far)
+                elif st == "get_group":
+                    v = rng.choice([j % 2 for j in ps])
+                    cur, ps = cur.groupby("grp", get_group=v), [j for j in ps if j % 2 == v]
+                elif st == "drop_short_0us":
+                    cur = cur.drop_short_intervals(0, time_units="us")
+                elif st == "ndarray_uint8":
+                    q = sorted(rng.sample(range(m), rng.randint(1, m)))
+                    cur, ps = cur[np.array(q, dtype=np.uint8)], [ps[j] for j in q]
+                elif st == "pd.Index_int32":
+                    q = sorted(rng.sample(range(m), rng.randint(1, m)))
+                    cur, ps = cur[pd.Index(np.array(q, dtype=np.int32)), :], [ps[j] for j in q]
+                elif st == "loc_list":
+                    q = sorted(rng.sample(range(m), rng.randint(1, m)))
+                    cur, ps = cur.loc[q], [ps[j] for j in q]
+                else:
+                    cur.set_info(lab=["s%d" % tag_of[j] for j in ps])     # overwrite a column with the same values: nothing may move
+            except Exception as ex:
+                cx.viol({"op": "IntervalSet.history", "step": st, "part": "exception", "widened": True}, "raised %s: %s" % (type(ex).__name__, str(ex)[:80]), dict(base, steps=hist + [st]))
+                cur = None
+                break
+            hist.append(st)
+            if not ps:
+                break
+        res.count("wide_iset_histories")
+        res.case(("wide_iset", vi, "history", tuple(hist)), nontrivial=True)
+        if cur is None or not ps:
+            continue
+        kk = {"op": "IntervalSet.history", "step": hist[-1], "widened": True}
+        judge_sel(cx, cur, ivs, ps, kk, dict(base, steps=hist), extra, nap)
+        if isinstance(cur, nap.IntervalSet) and attach_err(cur, ivs, "same") == "nometa":
+            cx.viol(dict(kk, part="lost"), "a history of metadata-preserving steps lost the metadata", dict(base, steps=hist), canon_res(cur))
+        elif isinstance(cur, nap.IntervalSet):
+            cx.corr("get_pos\t%s\t%s" % (obj_line(ivs), C.fmt_ints(ps)), canon_res(cur), dict(base, op="wide_history", steps=hist))
+
+
+# ----------------------------------------------------------------------------------------------
+# constructor, widened: every container / dtype / scalar form of start and end, the three units, positional and keyword
+CTOR_FORMS = ["ndarray_float64", "ndarray_float32", "ndarray_int64", "ndarray_int32", "ndarray_int16", "ndarray_uint8", "ndarray_uint16", "ndarray_uint32", "ndarray_uint64",
+              "list_int", "list_float", "tuple_float", "list_np_scalars", "pd.Series_int64", "pd.Series_float", "pd.Index_float", "pd.Index_int", "TsIndex_and_t", "pairs_ndarray_float",
+              "pairs_ndarray_int", "pairs_list_of_tuples", "pairs_list_of_lists", "dataframe_float", "dataframe_int", "strided_view", "scalar"]
+
+
+def run_ctor_forms(cx):
+    """start / end on a 1 ms lattice (1 s for integers given in seconds) around an origin (0, straddling 0, negative, 1e5 s), the same instants
+    written in s / ms / us: metadata is kept only when output interval i IS input interval i (the clauses of run_ctor), and the model agrees"""
+    nap, pd = _nap()
+    res = cx.res
+    rng = random.Random(cx.seed * 13 + 7)
+    base_cases = []
+    for m in (1, 2, 3):
+        for ss in itertools.product(range(5), repeat=m):
+            for es in itertools.product(range(5), repeat=m):
+                base_cases.append((list(ss), list(es)))
+    canon = [c for c in base_cases if all(s < e for s, e in zip(*c)) and all(c[1][i] < c[0][i + 1] for i in range(len(c[0]) - 1))]
+    ncase = 420 if cx.quick else 6000
+    cases = [rng.choice(canon) if rng.random() < 0.45 else rng.choice(base_cases) for _ in range(ncase)]
+    for ci, (ss0, es0) in enumerate(cases):
+        m = len(ss0)
+        form = CTOR_FORMS[ci % len(CTOR_FORMS)] if rng.random() < 0.7 else rng.choice(CTOR_FORMS)
+        unit = rng.choice(["s", "ms", "us"])
+        isint = any(x in form for x in ("int", "uint")) and "float" not in form and form != "list_np_scalars" or (form == "scalar" and rng.random() < 0.5)
+        step = 10 ** 9 if (unit == "s" and isint) else 10 ** 6
+        oname = rng.choice(["origin", "origin", "straddle0", "negative", "plus1e5s"])
+        shift = {"origin": 0, "straddle0": -2, "negative": -7, "plus1e5s": 10 ** 14 // step}[oname]
+        if "uint" in form and shift < 0:
+            shift, oname = 0, "origin"
+        ss, es = [(x + shift) * step for x in ss0], [(x + shift) * step for x in es0]      # ticks
+        div = {"s": 10 ** 9, "ms": 10 ** 6, "us": 10 ** 3}[unit]
+
+        def val(tk):   # the number the caller writes for the instant tk in the chosen unit
+            return tk // div if isint else (float(G.arr([tk])[0]) if unit == "s" else tk / div)
+        S, E = [val(x) for x in ss], [val(x) for x in es]
+        tags = [7 + 3 * i for i in range(m)]
+        mdform = rng.choice(["dict_list", "dict_ndarray", "dataframe", "dict_tuple"])
+        md = {"dict_list": {"tag": list(tags)}, "dict_ndarray": {"tag": np.array(tags, dtype=np.int16)}, "dataframe": pd.DataFrame({"tag": tags}), "dict_tuple": {"tag": tuple(tags)}}[mdform]
+        style = rng.choice(["keyword", "positional"])
+        inp = {"start": ss, "end": es, "tags": tags, "form": form, "time_units": unit, "given_start": S, "given_end": E, "origin": oname, "metadata_form": mdform, "call": style}
+        canonical = all(s < e for s, e in zip(ss, es)) and all(es[i] < ss[i + 1] for i in range(m - 1))
+        sorted_in = all(a <= b for a, b in zip(ss, ss[1:])) and all(a <= b for a, b in zip(es, es[1:]))
+        dfform = form.startswith("dataframe")
+        a0 = a1 = None
+        try:
+            dt = form.split("_")[-1]
+            if form.startswith("ndarray_"):
+                if isint and not all(np.iinfo(dt).min <= v <= np.iinfo(dt).max for v in S + E):
+                    dt = "uint64" if "uint" in dt else "int64"                                   # does not fit the small dtype
+                    form = "ndarray_" + dt
+                a0, a1 = np.array(S, dtype=dt), np.array(E, dtype=dt)
+                if dt == "float32" and (unit == "s" or oname == "plus1e5s" or [float(v) for v in a0] != S or [float(v) for v in a1] != E):
+                    a0, a1, form = np.array(S, dtype=np.float64), np.array(E, dtype=np.float64), "ndarray_float64"
+            elif form in ("list_int", "list_float"):
+                a0, a1 = list(S), list(E)
+            elif form == "tuple_float":
+                a0, a1 = tuple(S), tuple(E)
+            elif form == "list_np_scalars":
+                a0, a1 = [np.float64(v) for v in S], [np.float64(v) for v in E]
+            elif form.startswith("pd.Series"):
+                a0, a1 = pd.Series(S), pd.Series(E, index=[5 - i for i in range(m)])
+            elif form.startswith("pd.Index"):
+                a0, a1 = pd.Index(S), pd.Index(E)
+            elif form == "TsIndex_and_t":
+                if not sorted_in or unit != "s":
+                    a0, a1, form = np.array(S, dtype=np.float64), np.array(E, dtype=np.float64), "ndarray_float64"
+                else:
+                    a0, a1 = nap.Ts(np.array(S)).index, nap.Ts(np.array(E)).t
+            elif form.startswith("pairs_ndarray"):
+                a0 = np.column_stack([np.array(S), np.array(E)])
+            elif form == "pairs_list_of_tuples":
+                a0 = list(zip(S, E))
+            elif form == "pairs_list_of_lists":
+                a0 = [[a, b] for a, b in zip(S, E)]
+            elif dfform:
+                a0 = pd.DataFrame({"start": S, "end": E, "tag": tags})
+            elif form == "strided_view":
+                big = np.zeros((m, 4))
+                big[:, 1], big[:, 3] = S, E
+                a0, a1 = big[:, 1], big[:, 3]
+            else:   # scalar: one interval given by two numbers
+                if m != 1:
+                    a0, a1, form = np.array(S, dtype=np.float64), np.array(E, dtype=np.float64), "ndarray_float64"
+                else:
+                    sk = rng.choice(["python", "numpy", "0d_array", "numpy_small"])
+                    form = "scalar_" + sk + ("_int" if isint else "_float")
+                    cast = {"python": (int if isint else float), "numpy": (np.int64 if isint else np.float64), "0d_array": np.array,
+                            "numpy_small": (np.int32 if isint else np.float64)}[sk]
+                    a0, a1 = cast(S[0]), cast(E[0])
+            pairs = form.startswith("pairs")
+            if dfform:
+                r = nap.IntervalSet(a0, time_units=unit) if style == "keyword" else nap.IntervalSet(a0, None, unit)
+            elif pairs:
+                r = nap.IntervalSet(a0, time_units=unit, metadata=md) if style == "keyword" else nap.IntervalSet(a0, None, unit, md)
+            else:
+                r = nap.IntervalSet(start=a0, end=a1, time_units=unit, metadata=md) if style == "keyword" else nap.IntervalSet(a0, a1, unit, md)
+            impl = canon_res(r)
+        except Exception as ex:
+            r, impl = None, "E"
+            cx.viol({"op": "IntervalSet.__init__", "form": form, "time_units": unit, "part": "exception", "widened": True}, "constructor raised %s: %s" % (type(ex).__name__, str(ex)[:80]), inp)
+        inp["form"] = form
+        kk = {"op": "IntervalSet.__init__", "form": "dataframe" if dfform else "arrays", "argument_form": form, "time_units": unit, "widened": True}
+        res.case(("wide_ctor", tuple(ss), tuple(es), form, unit, style, mdform), nontrivial=not canonical)
+        res.count("wide_ctor_form_" + form); res.count("wide_ctor_units_" + unit); res.count("wide_ctor_origin_" + oname); res.count("wide_ctor_call_" + style)
+        res.count("wide_ctor_canonical" if canonical else "wide_ctor_needs_repair_or_sort")
+        cx.corr("%s\t%s\t%s\t%s" % ("mk_df" if dfform else "mk", C.fmt_ints(ss), C.fmt_ints(es), C.fmt_ints(tags)), impl, dict(inp, op="wide_ctor"))
+        if r is None:
+            continue
+        if "tag" in r.metadata_columns:
+            got = list(zip(ticks(r), [int(t) for t in r.metadata["tag"].values]))
+            given = {t: (s, e) for s, e, t in zip(ss, es, tags)}
+            bad = [g for g in got if not (g[0][0] == given[g[1]][0] and g[0][1] == given[g[1]][1] - (US if given[g[1]][1] in ss else 0))]
+            if bad or len(got) != m:
+                cx.viol(dict(kk, part="misattached"), "constructor kept metadata although output intervals are not the input intervals: %s" % bad, inp, impl)
+        elif canonical:
+            cx.viol(dict(kk, part="lost"), "canonical input lost its metadata", inp, impl)
+    cx.flush()
+
+
+# ----------------------------------------------------------------------------------------------
+# TsdFrame, widened: dtype of the data, container / unit / placement of the times, the ways of giving labels and metadata, degenerate frames,
+# key dtypes, scalar operand forms, parameters positional and by keyword, histories
+FRAME_DTYPES = ["float64", "float32", "int64", "int32", "int16", "int8", "uint8", "uint16", "uint64", "bool_pattern"]
+FRAME_LABELS = {"default": lambda n: list(range(n)), "float": lambda n: [1.5, 2.5, 0.5, 3.5, 4.5][:n], "negative_int": lambda n: [-1, -3, 2, 0, -7][:n],
+                "str_digits": lambda n: ["10", "9", "100", "1", "55"][:n], "str": lambda n: ["a", "b", "c", "d", "e"][:n], "sparse_int_unsorted": lambda n: [10, 5, 7, 3, 8][:n]}
+FRAME_ROWS = ["4rows", "4rows", "4rows", "1row", "0rows", "equal_times", "nan_inf_rows"]
+FRAME_TFORMS = ["ndarray", "list", "tuple", "pd.Series", "TsIndex", "other.t", "int64_ms", "uint16_us", "float32_ms", "ms_float", "dataframe_input", "positional"]
+FRAME_AFORMS = ["ctor_dict_list", "ctor_dict_ndarray", "ctor_dict_tuple", "ctor_dataframe", "set_info_kwargs_series", "set_info_dataframe", "set_info_dict", "setattr", "setitem"]
+
+
+def mk_frame_form(nap, pd, n, dtype, labs, rows, tform, aform, cform, off_ms, xkind):
+    """a TsdFrame whose column j holds the constant 11 (j + 1) (bool_pattern: the bits of j + 1 down the rows), labels `labs`, metadata tag / lab / grp / xtr"""
+    consts = [11 * (j + 1) for j in range(n)]
+    nrow = {"4rows": 4, "1row": 1, "0rows": 0, "equal_times": 4, "nan_inf_rows": 4}[rows]
+    tms = [off_ms + (0 if rows == "equal_times" else 4 * i) for i in range(nrow)]          # ms
+    if dtype == "bool_pattern":
+        D = np.array([[bool((j + 1) >> i & 1) for j in range(n)] for i in range(nrow)], dtype=bool).reshape(nrow, n)
+    else:
+        D = np.tile(np.array(consts, dtype=dtype), (nrow, 1))
+        if rows == "nan_inf_rows":
+            D[0, :] = np.nan
+            D[2, :] = [np.inf if j % 2 else -np.inf for j in range(n)]
+    sup = nap.IntervalSet((off_ms - 1000) / 1e3, (off_ms + 1000) / 1e3)
+    tsec = G.arr([x * 10 ** 6 for x in tms])
+    units = "s"
+    if tform in ("int64_ms", "float32_ms", "ms_float"):
+        t, units = np.array(tms, dtype={"int64_ms": np.int64, "float32_ms": np.float32, "ms_float": np.float64}[tform]), "ms"
+        if tform == "float32_ms" and [float(x) for x in t] != [float(x) for x in tms]:
+            t, tform = np.array(tms, dtype=np.float64), "ms_float"
+    elif tform == "uint16_us":
+        if tms and (min(tms) < 0 or max(tms) * 1000 > 65535):
+            t, units, tform = np.array([x * 1000 for x in tms], dtype=np.int64), "us", "int64_us"
+        else:
+            t, units = np.array([x * 1000 for x in tms], dtype=np.uint16), "us"
+    elif tform == "list":
+        t = [float(x) for x in tsec]
+    elif tform == "tuple":
+        t = tuple(float(x) for x in tsec)
+    elif tform == "pd.Series":
+        t = pd.Series(tsec)
+    elif tform == "TsIndex":
+        t = nap.Tsd(tsec, np.zeros(nrow), time_support=sup).index          # another object's index (shared, not copied)
+    elif tform == "other.t":
+        t = nap.Ts(tsec, time_support=sup).t
+    else:
+        t = tsec
+    fn = XKINDS[xkind]
+    xv = [fn(c) for c in consts]
+    if xkind in ("float32", "int8", "bool"):
+        xv = np.array(xv, dtype={"float32": np.float32, "int8": np.int8, "bool": bool}[xkind])
+    cols = {"tag": [10 * c for c in consts], "lab": ["m%d" % c for c in consts], "grp": [j % 2 for j in range(n)], "xtr": xv}
+    how = {"ctor_dict_list": "list", "ctor_dict_ndarray": "ndarray", "ctor_dict_tuple": "tuple", "set_info_dict": "tuple", "setattr": "ndarray", "setitem": "list"}.get(aform)
+    if aform in ("ctor_dataframe", "set_info_dataframe"):
+        md = pd.DataFrame({k: (v if isinstance(v, np.ndarray) else list(v)) for k, v in cols.items()}, index=list(labs))
+    elif aform == "set_info_kwargs_series":
+        md = {k: pd.Series(v if isinstance(v, np.ndarray) else list(v), index=list(labs)) for k, v in cols.items()}
+    else:
+        md = {k: _container(v, how, pd) for k, v in cols.items()}
+    cmd = md if aform.startswith("ctor") else None
+    cobj = {"list": list(labs), "ndarray": np.array(labs), "pd.Index": pd.Index(labs), "tuple": tuple(labs)}[cform]
+    if tform == "dataframe_input":
+        df = pd.DataFrame(D, index=tsec, columns=list(labs))
+        fr = nap.TsdFrame(df, time_support=sup, metadata=cmd)
+    elif tform == "positional":
+        fr = nap.TsdFrame(t, D, "s", sup, cobj, True, cmd)
+    else:
+        fr = nap.TsdFrame(t=t, d=D.tolist() if (tform == "list" and dtype == "float64") else D, time_units=units, time_support=sup, columns=cobj, metadata=cmd)
+    if cmd is None:
+        if aform in ("set_info_dataframe", "set_info_dict"):
+            fr.set_info(md)
+        elif aform == "set_info_kwargs_series":
+            fr.set_info(**md)
+        elif aform == "setattr":
+            for k, v in md.items():
+                setattr(fr, k, v)
+        else:
+            for k, v in md.items():
+                fr[k] = v
+    return fr, consts, sup, tform
+
+
+def run_frame_forms(cx):
+    nap, pd = _nap()
+    res = cx.res
+    rng = random.Random(cx.seed * 13 + 8)
+    nvar = 14 if cx.quick else 80
+    dts, lks, rws, tfs, afs, xks = list(FRAME_DTYPES), list(FRAME_LABELS), list(FRAME_ROWS), list(FRAME_TFORMS), list(FRAME_AFORMS), list(XKINDS)
+    for f in (dts, lks, rws, tfs, afs, xks):
+        rng.shuffle(f)
+    for vi in range(nvar):
+        dtype, lname, rows, tform, aform, xkind = dts[vi % len(dts)], lks[(vi + vi // len(lks)) % len(lks)], rws[vi % len(rws)], tfs[vi % len(tfs)], afs[(vi + vi // len(afs)) % len(afs)], xks[vi % len(xks)]
+        n = rng.choice([1, 2, 4, 4, 5])
+        if dtype == "bool_pattern":
+            rows = "4rows"
+        if tform == "dataframe_input" and lname in ("default", "str"):
+            lname = "sparse_int_unsorted"      # labels read from the DataFrame: in an order that sorting would change
+        if rows == "nan_inf_rows" and not dtype.startswith("float"):
+            rows = "4rows"
+        cform = rng.choice(["list", "ndarray", "pd.Index", "tuple"])
+        off_ms = rng.choice([0, 0, -6, -500, 10 ** 8])
+        labs = FRAME_LABELS[lname](n)
+        vdesc = {"dtype": dtype, "labels": labs, "rows": rows, "time_form": tform, "attach_form": aform, "columns_form": cform, "n": n, "t0_ms": off_ms, "xtr": xkind}
+        kk0 = {"op": "TsdFrame.__init__", "time_form": tform, "attach_form": aform, "widened": True}
+        try:
+            fr, consts, sup, tform = mk_frame_form(nap, pd, n, dtype, labs, rows, tform, aform, cform, off_ms, xkind)
+        except Exception as ex:
+            cx.viol(dict(kk0, part="exception"), "building a frame with labels and metadata raised %s: %s" % (type(ex).__name__, str(ex)[:80]), vdesc)
+            continue
+        for nm, v in (("dtype", dtype), ("labels", lname), ("rows", rows), ("time_form", tform), ("attach_form", aform), ("columns_form", cform), ("ncol", n), ("xtr", xkind),
+                      ("t0", {0: "origin", -6: "straddle0", -500: "negative", 10 ** 8: "plus1e5s"}[off_ms])):
+            res.count("wide_frame_%s_%s" % (nm, v))
+        res.case(("wide_frame", vi, dtype, lname, rows, tform, aform, cform, n, off_ms), nontrivial=True)
+        lab_of = dict(zip(consts, labs))
+        extra = {"xtr": XKINDS[xkind]}
+        pattern = dtype == "bool_pattern"
+        src = np.array(fr.values)
+        objl = "%s\t%s\t%s" % (C.fmt_ints([500 + j for j in range(n)]), C.fmt_ints(consts), C.fmt_ints([10 * c for c in consts]))
+
+        def canon(r):
+            if not isinstance(r, nap.TsdFrame):
+                return "NOTFRAME"
+            md = r.metadata
+            cs = [int(v) for v in (r.values[~np.isnan(np.asarray(r.values, dtype=float)).all(axis=1)] if len(r) else r.values)[:1].ravel()] if not pattern else []
+            if not cs:   # no sample to read the constants from: by label
+                cs = [consts[labs.index(l)] for l in r.columns]
+            return "%s|%s|%s|%s" % (C.fmt_ints([500 + labs.index(l) for l in r.columns]), C.fmt_ints(cs), C.fmt_ints([500 + labs.index(l) for l in md.index]),
+                                    C.fmt_ints(md["tag"].values) if "tag" in md.columns else "nometa")
+
+        def check(r, ps, kk, inp, f=lambda c: c, whole_rows=True):
+            """ps = positions of the expected columns in order"""
+            kk = dict(kk, widened=True)
+            inp = dict(vdesc, **inp)
+            want = [consts[p] for p in ps]
+            if pattern:
+                # boolean data cannot hold the constants: the bit pattern down the rows identifies the column (operations keeping all rows only)
+                if not isinstance(r, nap.TsdFrame):
+                    cx.viol(dict(kk, part="type"), "result is not a TsdFrame", inp)
+                    return
+                if whole_rows and (r.values.shape != (len(src), len(ps)) or not (np.asarray(r.values) == src[:, ps]).all()):
+                    cx.viol(dict(kk, part="columns"), "selected columns are not the requested ones", inp, np.asarray(r.values).astype(int).tolist(), src[:, ps].astype(int).tolist())
+                    return
+                frame_check(cx, nap, r[0:0], want, kk, inp, lab_of, extra=extra, by_label=True)
+                return
+            frame_check(cx, nap, r, want, kk, inp, lab_of, f, extra=extra, by_label=True, strip_nonfinite=(rows == "nan_inf_rows"))
+
+        def attempt(op, form, fn, inp=None):
+            try:
+                return fn()
+            except Exception as ex:
+                cx.viol({"op": op, "form": form, "part": "exception", "widened": True}, "raised %s: %s" % (type(ex).__name__, str(ex)[:80]), dict(vdesc, **dict(inp or {}, form=form)))
+                return None
+        allp = list(range(n))
+        check(fr, allp, {"op": "TsdFrame.__init__", "time_form": tform, "attach_form": aform}, {})
+        cx.corr("f_map\t%s" % objl, canon(fr), dict(vdesc, op="wide_frame_build"))
+        nrow = len(fr)
+        probe_get_info(cx, fr, "TsdFrame", list(labs), [10 * c for c in consts], vdesc, rng, pd)
+        # ---- positional column keys: NumPy integer dtypes, lists of NumPy scalars, strided arrays, NumPy scalars, masks of np.bool_, masks computed from metadata
+        for _q in range(14 if cx.quick else 40):
+            m = rng.randint(1, min(n, 4))
+            kind = rng.choice(["increasing", "any", "negative"])
+            l = sorted(rng.sample(range(n), m)) if kind != "any" else rng.sample(range(n), m)
+            if kind == "negative":
+                l = [p - n for p in l]
+            ps = [p % n for p in l]
+            dt = rng.choice(["int64", "int32", "int16", "int8"] + (["uint8", "uint16", "uint32", "uint64"] if min(l) >= 0 else []))
+            kf = rng.choice(["ndarray", "list_np", "strided", "scalar", "mask_list_np_bool", "mask_ndarray", "tuple_of_positions_as_list"])
+            mask = [j in ps for j in range(n)]
+            if kf == "ndarray":
+                key = np.array(l, dtype=dt)
+            elif kf == "list_np":
+                key = [np.dtype(dt).type(x) for x in l]
+            elif kf == "strided":
+                big = np.zeros(2 * m, dtype=dt)
+                big[::2] = l
+                key = big[::2]
+            elif kf == "scalar":
+                key, ps = np.dtype(dt).type(l[0]), [ps[0]]
+            elif kf == "mask_list_np_bool":
+                key, ps = [np.bool_(b) for b in mask], sorted(ps)
+            elif kf == "mask_ndarray":
+                key, ps = np.array(mask, dtype=np.bool_), sorted(ps)
+            else:
+                key = list(l)
+            rform = rng.choice([":", ":", "1:3", "::2", "::-1"]) if nrow == 4 and not pattern else ":"      # (a row mask / list with a column list is NumPy's pairwise indexing)
+            rkey = {":": slice(None), "1:3": slice(1, 3), "::2": slice(None, None, 2), "::-1": slice(None, None, -1)}[rform]
+            form = "%s_%s" % (kf, dt) if not kf.startswith("mask") and kf != "tuple_of_positions_as_list" else kf
+            inp = {"form": form, "key": l, "rows": rform}
+            res.count("wide_frame_key_" + kf)
+            res.case(("wide_frame", vi, form, str(l), rform), nontrivial=ps != allp)
+            kk = {"op": "TsdFrame.__getitem__", "form": form}
+            r = attempt("TsdFrame.__getitem__", form, lambda: fr[rkey, key], inp)
+            if r is None:
+                continue
+            if kf == "scalar":      # one column by an integer scalar: a Tsd (no label left); it must hold that column's data
+                ok = isinstance(r, nap.Tsd) and (pattern and rform == ":" and (np.asarray(r.values) == src[:, ps[0]]).all() or
+                                                 not pattern and all(int(v) == consts[ps[0]] for v in np.asarray(r.values) if np.isfinite(float(v))))
+                if not ok:
+                    cx.viol(dict(kk, part="columns", widened=True), "fr[:, scalar] is not that column's data", dict(vdesc, **inp), repr(r)[:80])
+                continue
+            if rform == "::-1" and isinstance(r, nap.TsdFrame) and nrow:
+                # rows in reverse order: not a valid time series, only the attachment of what came back is looked at
+                pass
+            check(r, ps, kk, inp, whole_rows=(rform == ":"))
+            if rform == ":" and isinstance(r, nap.TsdFrame):
+                cx.corr("f_pos\t%s\t%s" % (objl, C.fmt_ints(ps)), canon(r), dict(vdesc, op="wide_frame_get_pos", **inp))
+        tags = [10 * c for c in consts]
+        conds = []
+        for thr in rng.sample(tags, min(2, n)):
+            sel = [t >= thr for t in tags]
+            conds += [("bare_series_from_attr", lambda thr=thr: fr[fr.tag >= thr], sel), ("tuple_series_from_getitem", lambda thr=thr: fr[:, fr["tag"] >= thr], sel),
+                      ("tuple_values_of_series", lambda thr=thr: fr[:, (fr.get_info("tag") >= thr).values], sel), ("tuple_list_of_series", lambda thr=thr: fr[:, list(fr.metadata["tag"] >= thr)], sel)]
+        conds += [("bare_series_grp", lambda: fr[fr.grp == 1], [j % 2 == 1 for j in range(n)]), ("tuple_series_isin", lambda: fr[:, fr.lab.isin(["m%d" % c for c in consts[::2]])], [j % 2 == 0 for j in range(n)])]
+        for cname, fn, sel in conds:
+            ps = [j for j, b in enumerate(sel) if b]
+            if not ps:
+                continue
+            if cname.startswith("bare") and n == nrow and rows != "0rows":
+                continue      # a bare boolean Series on a square frame is also a valid ROW mask: the reading is not C13's business
+            res.count("wide_frame_key_mask_from_metadata")
+            res.case(("wide_frame", vi, cname, tuple(sel)), nontrivial=len(ps) < n)
+            r = attempt("TsdFrame.__getitem__", "mask_from_metadata_" + cname, fn, {"mask": [int(b) for b in sel]})
+            if r is not None:
+                check(r, ps, {"op": "TsdFrame.__getitem__", "form": "mask_from_metadata_" + cname}, {"mask": [int(b) for b in sel]})
+                cx.corr("f_mask\t%s\t%s" % (objl, C.fmt_ints([int(b) for b in sel])), canon(r), dict(vdesc, op="wide_frame_mask", form=cname))
+        # ---- label keys in every container: loc (all label kinds) and [] (string labels)
+        for _q in range(8 if cx.quick else 24):
+            m = rng.randint(1, n)
+            p = rng.sample(range(n), m)
+            ks = [labs[j] for j in p]
+            cont = rng.choice(["list", "ndarray", "pd.Index", "tuple", "pd.Series_values", "single"])
+            if cont == "single":
+                p, ks = p[:1], ks[:1]
+            key = {"list": list(ks), "ndarray": np.array(ks), "pd.Index": pd.Index(ks), "tuple": tuple(ks), "pd.Series_values": pd.Series(ks).values, "single": ks[0]}[cont]
+            forms = [("loc", lambda: fr.loc[key])]
+            if isinstance(labs[0], str):
+                forms.append(("getitem_labels", lambda: fr[key]))
+            for fname, fn in forms:
+                form = "%s_%s" % (fname, cont)
+                inp = {"form": form, "key": ks}
+                res.count("wide_frame_" + form)
+                res.case(("wide_frame", vi, form, str(ks)), nontrivial=True)
+                kk = {"op": "TsdFrame." + ("loc" if fname == "loc" else "__getitem__"), "form": form}
+                if cont == "tuple" and fname == "getitem_labels":
+                    # fr[('a', 'b')] is Python's fr['a', 'b'] = (row key, column key): not a list of labels; clean exception or the statement
+                    try:
+                        r = fn()
+                    except Exception as ex:
+                        res.count("observed:frame_getitem_tuple_of_labels_raises_" + type(ex).__name__)
+                        continue
+                else:
+                    r = attempt(kk["op"], form, fn, inp)
+                if r is None:
+                    continue
+                if len(p) == 1 and not isinstance(r, nap.TsdFrame):      # one label: a Tsd holding that column
+                    ok = isinstance(r, nap.Tsd) and (pattern and (np.asarray(r.values) == src[:, p[0]]).all() or
+                                                     not pattern and all(int(v) == consts[p[0]] for v in np.asarray(r.values) if np.isfinite(float(v))))
+                    if not ok:
+                        cx.viol(dict(kk, part="columns", widened=True), "one label does not return that label's column", dict(vdesc, **inp), repr(r)[:80])
+                    continue
+                check(r, p, kk, inp)
+                if len(p) > 1:
+                    cx.corr("f_labels\t%s\t%s" % (objl, C.fmt_ints([500 + j for j in p])), canon(r), dict(vdesc, op="wide_frame_labels", **inp))
+        # ---- groupby: by str / list / keyword, get_group positional / keyword, groupby_apply
+        gforms = [("by_str_positional", lambda v: fr.groupby("grp", v)), ("by_list_keyword", lambda v: fr.groupby(by=["grp"], get_group=v)),
+                  ("groupby_apply", lambda v: fr.groupby_apply("grp", lambda x: x)[v]), ("groups_then_tuple_index", lambda v: fr[:, fr.groupby("grp")[v]]),
+                  ("groupby_apply_input_key", lambda v: fr.groupby_apply("grp", (lambda x, y=None: x), input_key="x", y=2)[v])]
+        for v in sorted({j % 2 for j in range(n)}):
+            want = [j for j in range(n) if j % 2 == v]
+            for gname, fn in rng.sample(gforms, 3):
+                res.count("wide_frame_groupby_" + gname)
+                res.case(("wide_frame", vi, "groupby", gname, v), nontrivial=len(want) < n)
+                r = attempt("TsdFrame.groupby", gname, lambda: fn(v), {"group": v})
+                if r is not None:
+                    check(r, want, {"op": "TsdFrame.groupby", "form": gname}, {"group": v})
+        # ---- operations keeping every column: scalar operand forms, restrict / get / bin_average positional and keyword with units, NumPy functions, save / load
+        lo_s, hi_s = (off_ms - 1) / 1e3, (off_ms + 9) / 1e3
+        ep = nap.IntervalSet(lo_s, hi_s)
+        unsigned = dtype.startswith("uint")
+        ops = [("restrict_positional", lambda: fr.restrict(ep), None, False), ("restrict_keyword", lambda: fr.restrict(iset=ep), None, False),
+               ("get_s", lambda: fr.get(lo_s, hi_s), None, False), ("get_ms_positional", lambda: fr.get(off_ms - 1, off_ms + 9, "ms"), None, False),
+               ("get_us_keyword", lambda: fr.get(start=(off_ms - 1) * 1000, end=(off_ms + 9) * 1000, time_units="us"), None, False),
+               ("get_np_scalars", lambda: fr.get(np.float64(lo_s), np.float32(off_ms / 1e3 + 2.0)), None, False),
+               ("add_python_int", lambda: fr + 1, lambda c: c + 1, True), ("radd_python_float", lambda: 1.0 + fr, lambda c: c + 1, True), ("add_np.int64", lambda: fr + np.int64(1), lambda c: c + 1, True),
+               ("add_np.float32", lambda: fr + np.float32(1), lambda c: c + 1, True), ("add_0d_array", lambda: fr + np.array(1), lambda c: c + 1, True), ("add_bool", lambda: fr + True, lambda c: c + 1, True),
+               ("mul_python_int", lambda: fr * 2, lambda c: 2 * c, True), ("mul_np.uint8", lambda: np.uint8(2) * fr, lambda c: 2 * c, True), ("sub_python_int", lambda: fr - 1, lambda c: c - 1, True),
+               ("add_row_vector", lambda: fr + np.ones(n, dtype=fr.dtype), lambda c: c + 1, True), ("add_column_of_ones", lambda: fr + np.ones((nrow, 1)), lambda c: c + 1, True),
+               ("floordiv_1", lambda: fr // 1, None, True), ("np.add_keyword_free", lambda: np.add(fr, 1), lambda c: c + 1, True), ("np.multiply_left", lambda: np.multiply(2, fr), lambda c: 2 * c, True),
+               ("np.abs", lambda: np.abs(fr), None, True), ("np.positive", lambda: np.positive(fr), None, True), ("np.copy", lambda: np.copy(fr), None, True),
+               ("np.clip", lambda: np.clip(fr, 0, 100), None, True), ("method_clip", lambda: fr.clip(0, 100), None, True), ("astype_like_copy", lambda: fr.copy(), None, True),
+               ("bin_average_ms_positional", lambda: fr.bin_average(8, ep, "ms"), None, False), ("bin_average_us_keyword", lambda: fr.bin_average(bin_size=8000, ep=ep, time_units="us"), None, False),
+               ("bin_average_s", lambda: fr.bin_average(0.008), None, False), ("interpolate_keyword", lambda: fr.interpolate(ts=nap.Ts(np.array([off_ms + 2, off_ms + 6]) / 1e3), ep=ep), None, False),
+               ("value_from", lambda: nap.Ts(np.array([off_ms + 1, off_ms + 7]) / 1e3).value_from(fr, ep=ep), None, False), ("dropna", lambda: fr.dropna(), None, False),
+               ("dropna_no_update", lambda: fr.dropna(update_time_support=False), None, False)]
+        if not unsigned:
+            ops += [("neg", lambda: -fr, lambda c: -c, True), ("np.negative", lambda: np.negative(fr), lambda c: -c, True)]
+        if pattern:
+            ops = [o for o in ops if o[0] in ("restrict_positional", "restrict_keyword", "get_s", "get_ms_positional", "get_us_keyword", "np.copy", "astype_like_copy", "dropna", "np.positive")]
+        if rows == "equal_times":
+            ops = [o for o in ops if not o[0].startswith(("bin_average", "interpolate", "value_from"))]
+        if rows in ("0rows", "1row"):
+            ops = [o for o in ops if not o[0].startswith(("get", "interpolate", "value_from", "bin_average", "add_column"))]
+        if rows == "nan_inf_rows":
+            ops = [o for o in ops if not o[0].startswith(("bin_average", "interpolate", "np.clip", "method_clip", "np.abs"))]
+        if dtype != "float64":
+            # the jitted kernels behind these are compiled once per data dtype (tens of seconds on a cold cache) and belong to other properties
+            ops = [o for o in ops if not o[0].startswith(("bin_average", "value_from"))]
+        for nm, fn, f, whole in rng.sample(ops, min(len(ops), 12 if cx.quick else 30)):
+            res.count("wide_frame_op_" + nm)
+            res.case(("wide_frame", vi, "op", nm), nontrivial=True)
+            if pattern and nm == "np.positive":
+                try:
+                    r = fn()
+                except Exception:
+                    continue      # NumPy has no positive() for booleans
+            else:
+                r = attempt("TsdFrame." + nm, nm, fn)
+            if r is not None:
+                check(r, allp, {"op": "TsdFrame." + nm}, {"operation": nm}, f or (lambda c: c), whole_rows=whole and len(r) == nrow if isinstance(r, nap.TsdFrame) else False)
+                if f is None and nm.startswith(("restrict", "get_s", "astype")) and isinstance(r, nap.TsdFrame):
+                    cx.corr("f_map\t%s" % objl, canon(r), dict(vdesc, op="wide_frame_map", via=nm))
+        with tempfile.TemporaryDirectory() as d:
+            path = os.path.join(d, rng.choice(["f.npz", "f"]))
+            r = attempt("TsdFrame.save_load", "save_load", lambda: (fr.save(path), nap.load_file(path if path.endswith(".npz") else path + ".npz"))[1])
+            res.count("wide_frame_save_load")
+            res.case(("wide_frame", vi, "save_load"), nontrivial=True)
+            if r is not None:
+                check(r, allp, {"op": "TsdFrame.save_load"}, {})
+                if isinstance(r, nap.TsdFrame) and n > 1:
+                    check(r[:, np.array([n - 1, 0], dtype=np.int16)], [n - 1, 0], {"op": "TsdFrame.save_load", "part": "then_index"}, {})
+        # ---- histories: steps keeping or selecting columns, then the clauses on the end result
+        steps = ["restrict", "get", "add_1_sub_1", "np.copy", "save_load", "columns_int32", "columns_mask_from_metadata", "loc_labels", "rows_1:", "get_group", "dropna", "set_info_again", "transposed_twice"]
+        if pattern or rows in ("0rows", "1row", "equal_times"):
+            steps = [s_ for s_ in steps if s_ not in ("get", "add_1_sub_1", "rows_1:", "transposed_twice")]
+        for _h in range(5 if cx.quick else 16):
+            cur, ps, hist = fr, list(allp), []
+            for _k in range(3):
+                st = rng.choice(steps)
+                m = len(ps)
+                try:
+                    if st == "restrict":
+                        cur = cur.restrict(sup)
+                    elif st == "get":
+                        cur = cur.get(lo_s - 1, hi_s + 1)
+                    elif st == "add_1_sub_1":
+                        cur = (cur + 1) - 1
+                    elif st == "np.copy":
+                        cur = np.copy(cur)
+                    elif st == "save_load":
+                        with tempfile.TemporaryDirectory() as d:
+                            cur.save(os.path.join(d, "h.npz"))
+                            cur = nap.load_file(os.path.join(d, "h.npz"))
+                    elif st == "columns_int32":
+                        q = rng.sample(range(m), rng.randint(1, m))
+                        cur, ps = cur[:, np.array(q, dtype=np.int32)], [ps[j] for j in q]
+                    elif st == "columns_mask_from_metadata":
+                        thr = rng.choice([tags[j] for j in ps])
+                        cur, ps = cur[:, cur.tag <= thr], [j for j in ps if tags[j] <= thr]
+                    elif st == "loc_labels":
+                        q = rng.sample(range(m), rng.randint(2, m)) if m >= 2 else [0]
+                        if len(q) == 1:
+                            continue
+                        cur, ps = cur.loc[[labs[ps[j]] for j in q]], [ps[j] for j in q]
+                    elif st == "rows_1:":
+                        cur = cur[1:]
+                    elif st == "get_group":
+                        v = rng.choice([j % 2 for j in ps])
+                        cur, ps = cur.groupby("grp", get_group=v), [j for j in ps if j % 2 == v]
+                    elif st == "dropna":
+                        cur = cur.dropna()
+                    elif st == "set_info_again":
+                        cur.set_info(lab=["m%d" % consts[j] for j in ps])
+                    else:
+                        cur = cur * 1
+                except Exception as ex:
+                    cx.viol({"op": "TsdFrame.history", "step": st, "part": "exception", "widened": True}, "raised %s: %s" % (type(ex).__name__, str(ex)[:80]), dict(vdesc, steps=hist + [st]))
+                    cur = None
+                    break
+                hist.append(st)
+                if not isinstance(cur, nap.TsdFrame):
+                    break
+            res.count("wide_frame_histories")
+            res.case(("wide_frame", vi, "history", tuple(hist)), nontrivial=True)
+            if cur is None:
+                continue
+            if len(set(ps)) != len(ps):
+                continue
+            check(cur, ps, {"op": "TsdFrame.history", "step": hist[-1] if hist else "none"}, {"steps": hist}, whole_rows=False)
+        # the object itself is intact after all of that
+        check(fr, allp, {"op": "TsdFrame.operand_corrupted"}, {})
+    cx.flush()
+
+
+# ----------------------------------------------------------------------------------------------
+# TsGroup, widened: the forms of the dictionary (key types, order, list input), of the members (Ts / Tsd / raw arrays with units / empty), of the
+# metadata, of the keys used to select, of the scalar parameters; flags combined; degenerate groups; histories
+GROUP_KEYS = ["range", "sparse", "unsorted_dict_order", "str_multi_digit", "float_keys", "list_input", "np.int64_keys", "negative_keys"]
+GROUP_MEMBERS = ["Ts", "Tsd", "mixed", "one_empty_member", "ndarray_s", "ndarray_ms", "list_us"]
+GROUP_AFORMS = ["ctor_dict_list", "ctor_dict_ndarray", "ctor_dict_tuple", "ctor_dataframe", "ctor_kwargs", "ctor_kwargs_series", "set_info_kwargs_series", "set_info_dict", "set_info_dataframe",
+                "setattr", "setitem"]
+GROUP_OFFS = {"origin": 0, "straddle0": -32 * U, "negative": -96 * U, "plus1e5s": 10 ** 14}      # multiples of 16 U: the residues are unchanged
+
+
+def mk_group_form(nap, pd, n, kform, mform, aform, oname, xkind, style, bypass, resids=None, keys=None, sup=None):
+    off = GROUP_OFFS[oname]
+    if sup is None:
+        sup = nap.IntervalSet((off - 10 ** 9) / 1e9, (off + 10 ** 9) / 1e9)
+    resids = resids or [(3 * j + 2) % 16 for j in range(n)]
+    ikeys = keys or {"range": list(range(n)), "sparse": [1, 3, 7, 12, 20][:n], "unsorted_dict_order": [1, 3, 7, 12, 20][:n], "str_multi_digit": [3, 7, 12, 101, 1000][:n],
+                     "float_keys": [2, 3, 5, 8, 13][:n], "list_input": list(range(n)), "np.int64_keys": [4, 5, 9, 11, 30][:n], "negative_keys": [-5, -2, 0, 4, 9][:n]}[kform]
+
+    def member(j, r):
+        tk = [(16 * m + r) * U + off for m in range(4)]
+        kind = mform
+        if mform == "mixed":
+            kind = "Ts" if j % 2 else "Tsd"
+        if mform == "one_empty_member":
+            if j == 1:
+                return nap.Ts(np.array([]), time_support=sup)
+            kind = "Ts"
+        if kind == "Ts":
+            return nap.Ts(G.arr(tk), time_support=sup)
+        if kind == "Tsd":
+            return nap.Tsd(G.arr(tk), np.arange(4.0) + 100 * r, time_support=sup)
+        if kind == "ndarray_s":
+            return G.arr(tk)
+        if kind == "ndarray_ms":
+            return np.array(tk, dtype=np.float64) / 1e6
+        return [x / 1e3 for x in tk]
+    units = {"ndarray_ms": "ms", "list_us": "us"}.get(mform, "s")
+    pairs = [(k, member(j, r)) for j, (k, r) in enumerate(zip(ikeys, resids))]
+    if kform == "unsorted_dict_order":
+        pairs = pairs[::-1] if n < 3 else [pairs[i] for i in ([2, 0] + list(range(3, n)) + [1])]
+    wrap = {"str_multi_digit": str, "float_keys": float, "np.int64_keys": np.int64}.get(kform, int)
+    data = [m for _, m in pairs] if kform == "list_input" else {wrap(k): m for k, m in pairs}
+    fn = XKINDS[xkind]
+    xv = [fn(r) for r in resids]
+    if xkind in ("float32", "int8", "bool"):
+        xv = np.array(xv, dtype={"float32": np.float32, "int8": np.int8, "bool": bool}[xkind])
+    cols = {"tag": [10 * r for r in resids], "lab": ["n%d" % r for r in resids], "grp": [j % 2 for j in range(n)], "xtr": xv}      # in ascending key order
+    how = {"ctor_dict_list": "list", "ctor_dict_ndarray": "ndarray", "ctor_dict_tuple": "tuple", "ctor_kwargs": "ndarray", "set_info_dict": "list", "setattr": "tuple", "setitem": "ndarray"}.get(aform)
+    if kform == "unsorted_dict_order" and how is not None:
+        aform, how = "ctor_dataframe", None      # a bare list given with keys in another order is outside the statement (ASSUMPTIONS): give the metadata BY KEY
+    if aform in ("ctor_dataframe", "set_info_dataframe"):
+        md = pd.DataFrame({k: (v if isinstance(v, np.ndarray) else list(v)) for k, v in cols.items()}, index=list(ikeys))
+    elif aform in ("ctor_kwargs_series", "set_info_kwargs_series"):
+        md = {k: pd.Series(v if isinstance(v, np.ndarray) else list(v), index=list(ikeys)) for k, v in cols.items()}
+    else:
+        md = {k: _container(v, how, pd) for k, v in cols.items()}
+    if aform in ("ctor_kwargs", "ctor_kwargs_series"):
+        g = nap.TsGroup(data, time_support=sup, time_units=units, bypass_check=bypass, **md)
+    elif aform.startswith("ctor"):
+        g = nap.TsGroup(data, sup, units, bypass, md) if style == "positional" else nap.TsGroup(data, time_support=sup, time_units=units, bypass_check=bypass, metadata=md)
+    else:
+        g = nap.TsGroup(data, sup, units, bypass) if style == "positional" else nap.TsGroup(data, time_support=sup, time_units=units, bypass_check=bypass)
+        if aform in ("set_info_dict", "set_info_dataframe"):
+            g.set_info(md)
+        elif aform == "set_info_kwargs_series":
+            g.set_info(**md)
+        elif aform == "setattr":
+            for k, v in md.items():
+                setattr(g, k, v)
+        else:
+            for k, v in md.items():
+                g[k] = v
+    return g, ikeys, resids, sup, aform
+
+
+def run_group_forms(cx):
+    nap, pd = _nap()
+    res = cx.res
+    rng = random.Random(cx.seed * 13 + 9)
+    nvar = 10 if cx.quick else 64
+    kfs, mfs, afs, xks, ofs = list(GROUP_KEYS), list(GROUP_MEMBERS), list(GROUP_AFORMS), list(XKINDS), list(GROUP_OFFS)
+    for f in (kfs, mfs, afs, xks, ofs):
+        rng.shuffle(f)
+
+    def canon(g):
+        if not isinstance(g, nap.TsGroup):
+            return "NOTGROUP"
+        md = g.metadata
+        return "%s|%s|%s|%s" % (C.fmt_ints(g.keys()), C.fmt_ints([member_resid(g[k]) if member_resid(g[k]) is not None else -1 for k in g.keys()]), C.fmt_ints(md.index),
+                                C.fmt_ints(md["tag"].values) if "tag" in md.columns else "nometa")
+    # ---- the empty group (with and without metadata columns): nothing to misattach, every operation must go through
+    for ename, mk in (("empty_with_metadata_column", lambda: nap.TsGroup({}, time_support=nap.IntervalSet(-1.0, 1.0), metadata={"tag": [], "lab": []})),
+                      ("empty_ms_units", lambda: nap.TsGroup({}, time_support=nap.IntervalSet(-1.0, 1.0), time_units="ms"))):
+        res.count("wide_group_" + ename)
+        res.case(("wide_group", ename), nontrivial=True)
+        try:
+            ge = mk()
+            outs = [ge[[]] if False else ge, ge.restrict(nap.IntervalSet(0.0, 0.5)), ge.get(0, 500, "ms"), ge[np.array([], dtype=bool)]]
+            if any(not isinstance(o, nap.TsGroup) or len(o) for o in outs):
+                cx.viol({"op": "TsGroup.empty", "form": ename, "widened": True}, "an operation on the empty group did not return an empty group", {"form": ename})
+        except Exception as ex:
+            cx.viol({"op": "TsGroup.empty", "form": ename, "part": "exception", "widened": True}, "raised %s: %s" % (type(ex).__name__, str(ex)[:80]), {"form": ename})
+    for vi in range(nvar):
+        kform, mform, aform, xkind, oname = kfs[vi % len(kfs)], mfs[(vi + vi // len(mfs)) % len(mfs)], afs[(vi + 2 * (vi // len(afs))) % len(afs)], xks[vi % len(xks)], ofs[vi % len(ofs)]
+        n = rng.choice([1, 2, 4, 4, 5])
+        if mform == "one_empty_member" and n < 2:
+            n = 2
+        style, bypass = rng.choice(["keyword", "positional"]), rng.random() < 0.35
+        if mform in ("ndarray_s", "ndarray_ms", "list_us"):
+            bypass = False      # raw arrays are wrapped without a restrict only when the check runs
+        vdesc = {"keys_form": kform, "members": mform, "attach_form": aform, "xtr": xkind, "origin": oname, "n": n, "call": style, "bypass_check": bypass}
+        try:
+            g, keys, resids, sup, aform = mk_group_form(nap, pd, n, kform, mform, aform, oname, xkind, style, bypass)
+        except Exception as ex:
+            cx.viol({"op": "TsGroup.__init__", "keys_form": kform, "members": mform, "attach_form": aform, "part": "exception", "widened": True},
+                    "building a group with metadata raised %s: %s" % (type(ex).__name__, str(ex)[:80]), vdesc)
+            continue
+        vdesc["attach_form"] = aform
+        vdesc["keys"] = keys
+        for nm, v in (("keys_form", kform), ("members", mform), ("attach_form", aform), ("xtr", xkind), ("origin", oname), ("n", n), ("call", style), ("bypass_check", bypass)):
+            res.count("wide_group_%s_%s" % (nm, v))
+        res.case(("wide_group", vi, kform, mform, aform, xkind, oname, n, style, bypass), nontrivial=True)
+        rk = dict(zip(keys, resids))
+        extra = {"xtr": XKINDS[xkind]}
+        objl = "%s\t%s\t%s" % (C.fmt_ints(keys), C.fmt_ints(resids), C.fmt_ints([10 * r for r in resids]))
+        off = GROUP_OFFS[oname]
+
+        def check(r, want, kk, inp):
+            group_check(cx, nap, r, want, dict(kk, widened=True), dict(vdesc, **inp), member_resid, canon, extra)
+
+        def attempt(op, form, fn, inp=None):
+            try:
+                return fn()
+            except Exception as ex:
+                cx.viol({"op": op, "form": form, "part": "exception", "widened": True}, "raised %s: %s" % (type(ex).__name__, str(ex)[:80]), dict(vdesc, **dict(inp or {}, form=form)))
+                return None
+        allw = list(zip(keys, resids))
+        check(g, allw, {"op": "TsGroup.__init__", "keys_form": kform, "attach_form": aform}, {})
+        if mform != "one_empty_member":
+            cx.corr("g_map\t%s" % objl, canon(g), dict(vdesc, op="wide_group_build"))
+        tags = [10 * r for r in resids]
+        probe_get_info(cx, g, "TsGroup", list(keys), tags, vdesc, rng, pd)
+        # ---- selection keys: NumPy dtypes, lists of NumPy scalars, pandas objects, masks of np.bool_, masks computed from the metadata, scalars
+        for _q in range(14 if cx.quick else 40):
+            m = rng.randint(1, n)
+            p = rng.sample(range(n), m)
+            ks = [keys[j] for j in p]
+            kf = rng.choice(["ndarray", "list_np", "pd.Index", "pd.Series", "strided", "mask_list_np_bool", "mask_ndarray", "ndarray_float", "list_float", "scalar_np", "scalar_float"])
+            fits = [dt for dt in ("int64", "int32", "int16", "int8", "uint8", "uint16", "uint64") if all(np.iinfo(dt).min <= k <= np.iinfo(dt).max for k in ks)]
+            dt = rng.choice(fits)
+            documented = kf not in ("ndarray_float", "list_float", "scalar_float")
+            mask = [j in p for j in range(n)]
+            if kf == "ndarray":
+                key = np.array(ks, dtype=dt)
+            elif kf == "list_np":
+                key = [np.dtype(dt).type(k) for k in ks]
+            elif kf == "pd.Index":
+                key = pd.Index(np.array(ks, dtype=dt))
+            elif kf == "pd.Series":
+                key = pd.Series(np.array(ks, dtype=dt), index=[2 * i + 5 for i in range(m)])
+            elif kf == "strided":
+                big = np.zeros(2 * m, dtype=dt)
+                big[::2] = ks
+                key = big[::2]
+            elif kf == "mask_list_np_bool":
+                key = [np.bool_(b) for b in mask]
+            elif kf == "mask_ndarray":
+                key = np.array(mask, dtype=np.bool_)
+            elif kf == "ndarray_float":
+                key = np.array(ks, dtype=np.float64)
+            elif kf == "list_float":
+                key = [float(k) for k in ks]
+            elif kf == "scalar_np":
+                key, ks = np.dtype(dt).type(ks[0]), ks[:1]
+            else:
+                key, ks = float(ks[0]), ks[:1]
+            form = kf + ("_" + dt if kf in ("ndarray", "list_np", "pd.Index", "pd.Series", "strided", "scalar_np") else "")
+            inp = {"form": form, "key": ks}
+            res.count("wide_group_key_" + ("undocumented_" if not documented else "") + kf)
+            res.case(("wide_group", vi, form, str(ks)), nontrivial=len(ks) < n or ks != sorted(ks))
+            kk = {"op": "TsGroup.__getitem__", "form": form}
+            try:
+                r = g[key]
+            except Exception as ex:
+                if documented:
+                    cx.viol(dict(kk, part="exception", widened=True), "valid key raised %s: %s" % (type(ex).__name__, str(ex)[:60]), dict(vdesc, **inp))
+                else:
+                    res.count("observed:group_%s_raises_%s" % (kf, type(ex).__name__))
+                continue
+            if kf.startswith("scalar"):
+                if not (isinstance(r, (nap.Ts, nap.Tsd)) and member_resid(r) in (None, rk[ks[0]])):
+                    cx.viol(dict(kk, part="member_misattached", widened=True), "g[key] is not that key's member", dict(vdesc, **inp))
+                continue
+            check(r, [(k, rk[k]) for k in sorted(ks)], kk, inp)
+            if documented and mform != "one_empty_member":
+                cx.corr("g_keys\t%s\t%s" % (objl, C.fmt_ints(ks)), canon(r), dict(vdesc, op="wide_group_keys", **inp))
+        conds = []
+        for thr in rng.sample(tags, min(2, n)):
+            sel = [t >= thr for t in tags]
+            conds += [("attr_ge", lambda thr=thr: g[g.tag >= thr], sel), ("getitem_ge_values", lambda thr=thr: g[(g["tag"] >= thr).values], sel),
+                      ("get_info_list", lambda thr=thr: g[list(g.get_info("tag") >= thr)], sel), ("metadata_frame", lambda thr=thr: g[g.metadata["tag"] >= thr], sel)]
+        conds += [("grp_eq", lambda: g[g.grp == 1], [j % 2 == 1 for j in range(n)]), ("lab_isin", lambda: g[g.lab.isin(["n%d" % r for r in resids[::2]])], [j % 2 == 0 for j in range(n)]),
+                  ("rate_positive_or_nan", lambda: g[(g.rate >= 0) | g.rate.isna()], [True] * n)]
+        for cname, fn, sel in conds:
+            if not any(sel):
+                continue
+            want = [(k, rk[k]) for k, b in zip(keys, sel) if b]
+            res.count("wide_group_key_mask_from_metadata")
+            res.case(("wide_group", vi, cname, tuple(sel)), nontrivial=sum(sel) < n)
+            r = attempt("TsGroup.__getitem__", "mask_from_metadata_" + cname, fn, {"mask": [int(b) for b in sel]})
+            if r is not None:
+                check(r, want, {"op": "TsGroup.__getitem__", "form": "mask_from_metadata_" + cname}, {"mask": [int(b) for b in sel]})
+                if mform != "one_empty_member":
+                    cx.corr("g_mask\t%s\t%s" % (objl, C.fmt_ints([int(b) for b in sel])), canon(r), dict(vdesc, op="wide_group_mask", form=cname))
+        # ---- getby_threshold / getby_category / getby_intervals / groupby: positional and keyword, scalar forms, bins as list / ndarray
+        thr = rng.choice(tags)
+        for cname, fn, f in (("positional_int", lambda: g.getby_threshold("tag", thr), lambda a: a > thr), ("keyword_float", lambda: g.getby_threshold(key="tag", thr=float(thr), op="<="), lambda a: a <= thr),
+                             ("np.float32_ge", lambda: g.getby_threshold("tag", np.float32(thr), ">="), lambda a: a >= thr), ("np.int64_lt_keyword_op", lambda: g.getby_threshold("tag", np.int64(thr), op="<"), lambda a: a < thr),
+                             ("xtr_column", None, None)):
+            if fn is None:
+                continue
+            want = [(k, rk[k]) for k in keys if f(10 * rk[k])]
+            res.count("wide_group_getby_threshold_" + cname)
+            res.case(("wide_group", vi, "getby_threshold", cname, thr), nontrivial=0 < len(want) < n)
+            if not want:
+                continue
+            r = attempt("TsGroup.getby_threshold", cname, fn, {"thr": thr})
+            if r is not None:
+                check(r, want, {"op": "TsGroup.getby_threshold", "form": cname}, {"thr": thr})
+        for gname, fn in (("getby_category_positional", lambda v: g.getby_category("grp")[v]), ("getby_category_keyword", lambda v: g.getby_category(key="grp")[v]),
+                          ("groupby_positional", lambda v: g.groupby("grp", v)), ("groupby_list_keyword", lambda v: g.groupby(by=["grp"], get_group=v)),
+                          ("groupby_apply", lambda v: g.groupby_apply("grp", lambda x: x)[v]), ("groups_then_index", lambda v: g[g.groupby("grp")[v]]),
+                          ("groups_as_ndarray_then_index", lambda v: g[np.asarray(g.groupby("grp")[v])])):
+            for v in sorted({j % 2 for j in range(n)}):
+                want = [(k, rk[k]) for j, k in enumerate(keys) if j % 2 == v]
+                res.count("wide_group_" + gname)
+                res.case(("wide_group", vi, gname, v), nontrivial=len(want) < n)
+                r = attempt("TsGroup.groupby", gname, lambda: fn(v), {"group": v})
+                if r is not None:
+                    check(r, want, {"op": "TsGroup.groupby", "form": gname}, {"group": v})
+        bins = [0, 45, 95, 200]
+        for bname, fn in (("bins_list_positional", lambda: g.getby_intervals("tag", list(bins))), ("bins_ndarray_keyword", lambda: g.getby_intervals(key="tag", bins=np.array(bins))),
+                          ("bins_float32_array", lambda: g.getby_intervals("tag", np.array(bins, dtype=np.float32)))):
+            res.count("wide_group_getby_intervals_" + bname)
+            res.case(("wide_group", vi, "getby_intervals", bname), nontrivial=True)
+            out = attempt("TsGroup.getby_intervals", bname, fn)
+            if out is None:
+                continue
+            seen = []
+            for part in out[0]:
+                if isinstance(part, nap.TsGroup):
+                    seen += list(part.keys())
+                    lo_hi = [(a, b) for a, b in zip(bins, bins[1:]) if all(a <= 10 * rk[k] < b for k in part.keys())]
+                    if not lo_hi:
+                        cx.viol({"op": "TsGroup.getby_intervals", "form": bname, "part": "members", "widened": True}, "a part mixes members of several bins", dict(vdesc, part=list(part.keys())))
+                check(part, [(k, rk[k]) for k in (part.keys() if isinstance(part, nap.TsGroup) else [])], {"op": "TsGroup.getby_intervals", "form": bname}, {})
+            if sorted(seen) != [k for k in keys if bins[0] <= 10 * rk[k] < bins[-1]]:
+                cx.viol({"op": "TsGroup.getby_intervals", "form": bname, "part": "members", "widened": True}, "the parts do not hold every member with a value inside the bins exactly once", vdesc, sorted(seen))
+        # ---- restrict / get / value_from: positional and keyword, the three units, scalar forms; save / load
+        ep = nap.IntervalSet(G.arr([10 * U + off, 40 * U + off]), G.arr([30 * U + off, 70 * U + off]))
+        a_t, b_t = 20 * U + off, 60 * U + off
+        srct = nap.Tsd(G.arr([off, 80 * U + off]), np.array([1.0, 2.0]), time_support=sup)
+        ends_k = [keys[-1], keys[0]] if n > 1 else [keys[0]]
+        ops = [("restrict_positional", lambda: g.restrict(ep)), ("restrict_keyword", lambda: g.restrict(ep=ep)), ("get_s", lambda: g.get(a_t / 1e9, b_t / 1e9)),
+               ("get_ms_positional", lambda: g.get(a_t / 1e6, b_t / 1e6, "ms")), ("get_us_keyword", lambda: g.get(start=a_t / 1e3, end=b_t / 1e3, time_units="us")),
+               ("get_np.float64", lambda: g.get(np.float64(a_t / 1e9), np.float64(b_t / 1e9))), ("get_closest_single", lambda: g.get(a_t / 1e9)),
+               ("value_from_positional", lambda: g.value_from(srct, sup, "before")), ("value_from_keyword", lambda: g.value_from(tsd=srct, ep=sup, mode="after")), ("value_from_default", lambda: g.value_from(srct)),
+               ("restrict_then_keys_int16", lambda: g.restrict(ep)[np.array(ends_k, dtype=np.int16)] if all(abs(k) < 2 ** 15 for k in keys) else g.restrict(ep)[list(ends_k)]),
+               ("restrict_own_time_support", lambda: g.restrict(g.time_support))]
+        single = [o for o in ops if o[0] == "get_closest_single"]
+        ops = [o for o in ops if o[0] != "get_closest_single"]
+        for nm, fn in single + rng.sample(ops, 6 if cx.quick else len(ops)):
+            res.count("wide_group_op_" + nm)
+            res.case(("wide_group", vi, "op", nm), nontrivial=True)
+            if nm == "get_closest_single":
+                # get(start) with `end` left at its documented default None ("only the timepoint closest to start is returned"): one boolean per trigger
+                try:
+                    r = fn()
+                except Exception as ex:
+                    cx.viol({"op": "TsGroup.get", "part": "exception", "end_is_none": True, "tsd_member": mform in ("Tsd", "mixed"), "empty_member": mform == "one_empty_member",
+                             "widened": True}, "the documented call g.get(start) raised %s: %s" % (type(ex).__name__, str(ex)[:80]), dict(vdesc, form=nm))
+                    continue
+            else:
+                r = attempt("TsGroup." + nm, nm, fn)
+            if r is not None:
+                want = allw if not nm.startswith("restrict_then_keys") else sorted({(keys[0], resids[0]), (keys[-1], resids[-1])})
+                check(r, want, {"op": "TsGroup." + nm}, {"operation": nm})
+                if nm in ("restrict_positional", "get_s") and mform != "one_empty_member":
+                    cx.corr("g_map\t%s" % objl, canon(r), dict(vdesc, op="wide_group_map", via=nm))
+        with tempfile.TemporaryDirectory() as d:
+            path = os.path.join(d, rng.choice(["g.npz", "g"]))
+            r = attempt("TsGroup.save_load", "save_load", lambda: (g.save(path), nap.load_file(path if path.endswith(".npz") else path + ".npz"))[1])
+            res.count("wide_group_save_load")
+            res.case(("wide_group", vi, "save_load"), nontrivial=True)
+            if r is not None:
+                check(r, allw, {"op": "TsGroup.save_load"}, {})
+                if isinstance(r, nap.TsGroup) and n > 1:
+                    check(r[[keys[-1], keys[0]]], sorted([(keys[0], resids[0]), (keys[-1], resids[-1])]), {"op": "TsGroup.save_load", "part": "then_index"}, {})
+        # ---- merge_group / merge: the three flags combined, different time supports, overlapping keys with reset_index, the same live object twice,
+        #      an empty operand, members of another class, three operands of which two are the same object
+        others = {"disjoint_keys_same_support": dict(keys=[max(keys) + 2, max(keys) + 5], sup=sup), "disjoint_keys_other_support": dict(keys=[max(keys) + 2, max(keys) + 5], sup=None),
+                  "keys_below_other_support": dict(keys=[min(keys) - 7, min(keys) - 3], sup=None), "overlapping_keys_same_support": dict(keys=[keys[0], max(keys) + 1], sup=sup)}
+        for oname2, spec in others.items():
+            osup = spec["sup"] or nap.IntervalSet((off - 2 * 10 ** 9) / 1e9, (off + 3 * 10 ** 9) / 1e9)
+            for reset_index, reset_ts, ign in rng.sample(list(itertools.product([False, True], repeat=3)), 2 if cx.quick else 8):
+                om = rng.choice(["Ts", "Tsd"])
+                try:
+                    g2, k2, r2, _, _ = mk_group_form(nap, pd, 2, "sparse", om, rng.choice(["ctor_dict_list", "ctor_dataframe", "setitem"]), oname, xkind, "keyword", False, resids=[1, 14], keys=spec["keys"], sup=osup)
+                except Exception as ex:
+                    cx.viol({"op": "TsGroup.__init__", "part": "exception", "widened": True}, "raised %s" % type(ex).__name__, dict(vdesc, other=oname2))
+                    continue
+                order = rng.choice(["static_12", "method_12", "method_21"])
+                inp = {"other": oname2, "keys_2": k2, "reset_index": reset_index, "reset_time_support": reset_ts, "ignore_metadata": ign, "call": order, "other_members": om}
+                kk = {"op": "TsGroup.merge_group", "other": oname2, "reset_index": reset_index, "reset_time_support": reset_ts, "ignore_metadata": ign, "widened": True}
+                res.count("wide_group_merge_" + oname2)
+                res.count("wide_group_merge_flags_%d%d%d" % (reset_index, reset_ts, ign))
+                res.case(("wide_group", vi, "merge", oname2, reset_index, reset_ts, ign, order), nontrivial=True)
+                must_fail = (not reset_index and "overlapping" in oname2) or (not reset_ts and "other_support" in oname2)
+                first, second = (g, g2) if order != "method_21" else (g2, g)
+                try:
+                    flags = dict(reset_index=reset_index, reset_time_support=reset_ts, ignore_metadata=ign)
+                    r = nap.TsGroup.merge_group(first, second, **flags) if order == "static_12" else first.merge(second, **flags)
+                except Exception as ex:
+                    if not must_fail:
+                        cx.viol(dict(kk, part="exception"), "a merge the documentation allows raised %s: %s" % (type(ex).__name__, str(ex)[:60]), dict(vdesc, **inp))
+                    r = None
+                if r is not None:
+                    if must_fail:
+                        res.count("observed:merge_that_documentation_forbids_went_through")
+                    pool = ([(k, rk[k]) for k in keys] + list(zip(k2, r2))) if order != "method_21" else (list(zip(k2, r2)) + [(k, rk[k]) for k in keys])
+                    want = [(i, rr) for i, (_, rr) in enumerate(pool)] if reset_index else sorted(pool)
+                    if ign:
+                        if isinstance(r, nap.TsGroup) and [c for c in r.metadata_columns if c != "rate"]:
+                            cx.viol(dict(kk, part="ignore"), "ignore_metadata kept metadata", dict(vdesc, **inp))
+                        if not isinstance(r, nap.TsGroup) or list(r.keys()) != [k for k, _ in want] or any(member_resid(r[k]) not in (None, rr) for k, rr in want):
+                            cx.viol(dict(kk, part="member_misattached"), "the merged group does not hold each member under its key", dict(vdesc, **inp), canon(r))
+                    else:
+                        check(r, want, kk, inp)
+                for gx, wx, nm in ((g, allw, "first"), (g2, list(zip(k2, r2)), "second")):
+                    group_check(cx, nap, gx, wx, dict(kk, part_of="operand_corrupted", operand=nm), dict(vdesc, **inp), member_resid, canon, extra)
+        for sname, fn, want in (("same_object_twice_reset_index", lambda: nap.TsGroup.merge_group(g, g, reset_index=True), [(i, r) for i, r in enumerate(resids + resids)]),
+                                ("same_object_twice_method", lambda: g.merge(g, reset_index=True, reset_time_support=True), [(i, r) for i, r in enumerate(resids + resids)]),
+                                ("three_operands_two_the_same", lambda: g.merge(g[list(keys[:1])], g, reset_index=True), [(i, r) for i, r in enumerate(resids + resids[:1] + resids)]),
+                                ("with_its_own_selection_reset", lambda: g[list(keys[::-1])].merge(g, reset_index=True), [(i, r) for i, r in enumerate(resids + resids)]),
+                                ("single_operand", lambda: nap.TsGroup.merge_group(g), allw)):
+            res.count("wide_group_merge_" + sname)
+            res.case(("wide_group", vi, "merge", sname), nontrivial=True)
+            import contextlib, io
+            with contextlib.redirect_stdout(io.StringIO()):
+                r = attempt("TsGroup.merge_group", sname, fn)
+            if r is not None:
+                check(r, want, {"op": "TsGroup.merge_group", "form": sname}, {"form": sname})
+        if not any(c in kform for c in ("zzz",)):
+            ge = nap.TsGroup({}, time_support=sup, metadata={c: [] for c in ("tag", "lab", "grp", "xtr")})
+            for sname, fn in (("with_empty_group", lambda: g.merge(ge)), ("empty_group_first", lambda: ge.merge(g))):
+                res.count("wide_group_merge_" + sname)
+                res.case(("wide_group", vi, "merge", sname), nontrivial=True)
+                try:
+                    r = fn()
+                except Exception as ex:
+                    res.count("observed:merge_%s_raises_%s" % (sname, type(ex).__name__))
+                    continue
+                # an empty operand's columns have no dtype: values may come back as floats / objects; they must still be the member's
+                group_check(cx, nap, r, allw, {"op": "TsGroup.merge_group", "form": sname, "widened": True}, dict(vdesc, form=sname), member_resid, canon,
+                            None if xkind in ("bool", "int8", "float32") else extra)
+        # ---- histories
+        steps = ["restrict", "get", "keys_int32", "mask_from_metadata", "save_load", "get_group", "getby_threshold", "merge_with_disjoint_then_drop", "set_info_again", "value_from", "pd.Index"]
+        for _h in range(5 if cx.quick else 16):
+            cur, ks, hist = g, list(keys), []
+            for _k in range(3):
+                st = rng.choice(steps)
+                m = len(ks)
+                try:
+                    if st == "restrict":
+                        cur = cur.restrict(sup)
+                    elif st == "get":
+                        cur = cur.get((off - 5 * 10 ** 8) / 1e9, (off + 5 * 10 ** 8) / 1e9)
+                    elif st == "keys_int32":
+                        q = rng.sample(ks, rng.randint(1, m))
+                        cur, ks = cur[np.array(q, dtype=np.int32)], sorted(q)
+                    elif st == "pd.Index":
+                        q = rng.sample(ks, rng.randint(1, m))
+                        cur, ks = cur[pd.Index(q)], sorted(q)
+                    elif st == "mask_from_metadata":
+                        thr = rng.choice([10 * rk[k] for k in ks])
+                        cur, ks = cur[cur.tag <= thr], [k for k in ks if 10 * rk[k] <= thr]
+                    elif st == "save_load":
+                        with tempfile.TemporaryDirectory() as d:
+                            cur.save(os.path.join(d, "h.npz"))
+                            cur = nap.load_file(os.path.join(d, "h.npz"))
+                    elif st == "get_group":
+                        v = rng.choice([keys.index(k) % 2 for k in ks])
+                        cur, ks = cur.groupby("grp", get_group=v), [k for k in ks if keys.index(k) % 2 == v]
+                    elif st == "getby_threshold":
+                        thr = rng.choice([10 * rk[k] for k in ks])
+                        cur, ks = cur.getby_threshold("tag", thr, ">="), [k for k in ks if 10 * rk[k] >= thr]
+                    elif st == "merge_with_disjoint_then_drop":
+                        gx, kx, _, _, _ = mk_group_form(nap, pd, 1, "sparse", "Ts", "ctor_dict_list", oname, xkind, "keyword", False, resids=[15], keys=[max(keys) + 50], sup=cur.time_support)
+                        cur = cur.merge(gx)[list(ks)]
+                    elif st == "value_from":
+                        cur = cur.value_from(srct, sup)
+                    else:
+                        cur.set_info(lab=["n%d" % rk[k] for k in ks])
+                except Exception as ex:
+                    cx.viol({"op": "TsGroup.history", "step": st, "part": "exception", "widened": True}, "raised %s: %s" % (type(ex).__name__, str(ex)[:80]), dict(vdesc, steps=hist + [st]))
+                    cur = None
+                    break
+                hist.append(st)
+            res.count("wide_group_histories")
+            res.case(("wide_group", vi, "history", tuple(hist)), nontrivial=True)
+            if cur is not None:
+                check(cur, [(k, rk[k]) for k in ks], {"op": "TsGroup.history", "step": hist[-1]}, {"steps": hist})
+        check(g, allw, {"op": "TsGroup.operand_corrupted"}, {})
+    cx.flush()
+
+
 def run(res, tier, seed):
     warnings.simplefilter("ignore")
     cx = Ctx(res, tier, seed)
@@ -1144,9 +2693,27 @@ def run(res, tier, seed):
                 "position lists, slices, masks, label lists in every order, boolean Series with the labels in another order (bare and [:, key]), loc, groupby (groups of one column included), "
                 "16 column-preserving operations, 4 NumPy column permutations, save/load; TsGroup (2 key sets): key lists in every order, masks, boolean Series with the keys in another order, "
                 "pd.Index / int Series of keys, getby_*, groupby, restrict/get, save/load, merge_group over every split into two x order x flags and every split into three x 2 orders x "
-                "reset_index, operands re-checked after each merge. non-trivial = the selection is proper or reorders / the input needs repair / the operands overlap")
+                "reset_index, operands re-checked after each merge. non-trivial = the selection is proper or reorders / the input needs repair / the operands overlap. "
+                "WIDENED FORMS (seeded samples of the product of the axes, counted as wide_*): "
+                "[dtype] metadata values as Python ints / int64 / int32 / int16 / uint8 / uint64 / float64 / float32 plus a fourth column of floats with NaN, booleans, mixed objects, float32 or int8; "
+                "TsdFrame data float64 / float32 / int64..int8 / uint8..uint64 / boolean bit patterns, rows of NaN and of +inf / -inf. "
+                "[form of time arguments and keys] IntervalSet start / end as ndarray, list, tuple, pd.Series (own index), pd.Index, another object's TsIndex and .t, strided views of a live IntervalSet, "
+                "arrays / lists of pairs, DataFrame, NumPy and Python scalars, 0-d arrays, integer arrays of every width (signed and unsigned); TsdFrame t as list / tuple / Series / TsIndex / .t / integer and "
+                "float32 arrays / a pandas DataFrame input; keys as NumPy arrays of every integer dtype, lists of NumPy scalars, NumPy scalars, pd.Index / pd.Series of small dtypes, strided arrays, masks as "
+                "lists of np.bool_, masks computed from the object's own metadata (attribute, item, get_info, .values, list); 0-d arrays, ranges and float keys only as `clean exception or the statement`. "
+                "[positional and keyword, flags combined] constructors, groupby (by as str / list / two columns, get_group, groupby_apply with input_key), drop_short / drop_long / split / merge_close, "
+                "restrict / get / value_from / bin_average / interpolate / getby_threshold / getby_category / getby_intervals, merge_group with every combination of reset_index x reset_time_support x "
+                "ignore_metadata against operands with the same / another time support and disjoint / lower / overlapping keys. "
+                "[units] every time argument written in s, ms and us for the same instants. [placement] origins 0, straddling 0, all negative, 1e5 s. "
+                "[degenerate] one interval / column / member, 12 intervals, an empty IntervalSet operand, frames with one row, no row, all timestamps equal (explicit support), an empty TsGroup, a group with "
+                "an empty member, keys given as multi-digit strings / floats / np.int64 / negative / a dictionary in another order (metadata then given BY KEY) / a list of members. "
+                "[classes] members Ts / Tsd / mixed / raw arrays with units, operands without metadata, metadata attached through the constructor (dict of lists / arrays / tuples / Series, DataFrame, keyword "
+                "arguments), set_info (dict, DataFrame, keyword Series), attribute and item assignment. "
+                "[histories] three steps drawn from selection / restrict / get / arithmetic / NumPy function / save+load / DataFrame round trip / set operation with a covering or far operand / merge-then-drop, "
+                "then the statement's clauses on the end result; the same live object on both sides of intersect / set_diff / union / merge_group, operands sharing memory, bypass_check=True; every widened "
+                "object is re-checked after all operations on it")
     res.exhaustive = True
-    for part in (run_iset_index, run_ctor, run_setops, run_frame, run_group):
+    for part in (run_iset_index, run_ctor, run_setops, run_frame, run_group, run_iset_forms, run_ctor_forms, run_frame_forms, run_group_forms):
         try:
             part(cx)
         except Exception as ex:  # an exception nobody anticipated: report it against the part, keep the other parts running
@@ -1221,5 +2788,17 @@ def replay(payload):
         bad = [list(g.metadata.index) != ks for g, ks in zip(gs, (inp["keys_1"], inp["keys_2"]))]
         print("operand metadata index intact:", [not b for b in bad])
         return 1 if any(bad) else 0
+    if key.get("op") == "TsGroup.get" and key.get("end_is_none"):
+        members = {0: nap.Tsd(t=np.array([0.0, 1.0, 2.0]), d=np.array([1.0, 2.0, 3.0])) if key.get("tsd_member") else nap.Ts(t=np.array([0.0, 1.0, 2.0])),
+                   3: nap.Ts(t=np.array([]), time_support=nap.IntervalSet(0.0, 2.0)) if key.get("empty_member") else nap.Ts(t=np.array([0.5, 1.5]))}
+        g = nap.TsGroup(members, time_support=nap.IntervalSet(0.0, 2.0), metadata={"tag": [10, 20]})
+        try:
+            r = g.get(1.2)
+        except Exception as ex:
+            print("g.get(1.2) raised", type(ex).__name__, ex)
+            return 1
+        print(r)
+        ok = isinstance(r, nap.TsGroup) and list(r.keys()) == [0, 3] and list(r.metadata["tag"]) == [10, 20]
+        return 0 if ok else 1
     print("no dedicated replay for this case; run the quick tier")
     return 1
